@@ -1,5 +1,5 @@
-import PedVerif.Spec.Validate
-import PedVerif.Model.ValidateWorld
+import PedVerif.Spec.ValidateRegions
+import PedVerif.Lemmas.ValidateRef
 /-!
 # C12 — @validate is a gate: the body only ever sees validated values
 
@@ -94,6 +94,53 @@ theorem receiverKey_eq (sig : Sig) (a : Bool) : receiverKey sig a = specReceiver
 theorem specReceiver_cases (sig : Sig) : specReceiver sig = none ∨ specReceiver sig = some selfName := by
   unfold specReceiver; split <;> simp
 
+/-! ### the specification's own lookups are the model's -/
+
+/-- "the last declaration of a name wins": the specification's `specFindP` is the model's `parameter_dict` lookup -/
+theorem specFindP_eq : ∀ (ps : List VParam) (k : Name), specFindP ps k = findP ps k := by
+  intro ps
+  induction ps with
+  | nil => intro k; rfl
+  | cons p r ih =>
+    intro k
+    have ih' := ih k
+    unfold specFindP at ih' ⊢
+    simp only [List.reverse_cons, List.find?_append, findP, ih']
+    cases findP r k with
+    | some q => rfl
+    | none => cases h : (p.name == k) <;> simp [List.find?_cons, h]
+
+theorem specDefault_eq (sig : Sig) (n : Name) : specDefault sig n = sig.default? n := by
+  unfold specDefault Sig.default? Sig.named
+  induction (sig.pos ++ sig.kwOnly) with
+  | nil => rfl
+  | cons s r ih =>
+    simp only [List.filter_cons, List.find?_cons]
+    cases h : (s.name == n) with
+    | true => simp
+    | false => simpa using ih
+
+/-- the specification of the trailing strict block (Flask JSON requests) is what the model's `flaskCheck` computes -/
+theorem specFlask_eq (c : Cfg) (res : Assoc) : specFlask c res = flaskCheck c.ps c.strict c.req res := by
+  unfold specFlask flaskCheck
+  have h1 : c.ps.all (fun p => (specFindP c.ps p.name).all (·.flaskJson))
+      = c.ps.all (fun p => match findP c.ps p.name with | some q => q.flaskJson | Option.none => true) := by
+    congr 1; funext p; rw [specFindP_eq]; cases findP c.ps p.name <;> rfl
+  rw [h1]
+  cases c.req with
+  | noContext => rfl
+  | notJson => rfl
+  | json keys =>
+    have h2 : keys.all (fun k => (specFindP c.ps k).isSome) = !keys.any (fun k => (findP c.ps k).isNone) := by
+      induction keys with
+      | nil => rfl
+      | cons k ks ih =>
+        simp only [specFindP_eq] at ih
+        simp only [List.all_cons, List.any_cons, specFindP_eq, ih]
+        cases findP c.ps k <;> simp
+    simp only [h2]
+    cases keys.any (fun k => (findP c.ps k).isNone) <;> rfl
+
 theorem findP_name : ∀ (ps : List VParam) (k : Name) (p : VParam), findP ps k = some p → p.name = k := by
   intro ps
   induction ps with
@@ -158,7 +205,8 @@ theorem runValidators_eq_fold (p : VParam) (off : Nat) (hoff : ∀ j, p.whyAt (j
     given) followed by every validator — as a left fold in order, each step receiving its predecessor's output; the first
     failing step decides and is reported with the parameter's name. -/
 theorem validate_is_chain_fold (p : VParam) (v : PV) : p.validate v = specValidate p v := by
-  unfold VParam.validate specValidate
+  rw [validate_unfold]
+  unfold VParam.validateRef specValidate
   cases v with
   | none => simp [isRequired_eq]
   | obj i =>
@@ -188,13 +236,16 @@ def wrapperSeq (c : Cfg) (args : List PV) (kw : List (Name × PV)) : Except VExc
     (loopKw c.ps c.strict kw [] []).bind fun st1 =>
     (bindPartial c.sig args).bind fun b =>
     (loopPos c.ps c.strict c.sig.receiver b.named st1.1 st1.2 []).bind fun st2 =>
-    (if b.extras.isEmpty then .ok (st2.1, st2.2.1) else loopZip (zipPairs c.ps args st2.2.1 st2.2.2) st2.1 st2.2.1).bind fun st3 =>
+    (if b.extras.isEmpty then .ok (st2.1, st2.2.1)
+     else if zipRefuses c.ps c.strict args b.extras st2.2.1 st2.2.2 then .error .tooMany
+     else loopZip (zipPairs c.ps args b.extras st2.2.1 st2.2.2) st2.1 st2.2.1).bind fun st3 =>
     (loopUnused c.sig (c.ps.filter (fun p => !st3.2.contains p.name)) st3.1).bind (flaskCheck c.ps c.strict c.req)
 
 theorem wrapperContent_eq_seq (c : Cfg) (args : List PV) (kw : List (Name × PV)) :
     wrapperContent c args kw = wrapperSeq c args kw := by
   unfold wrapperContent wrapperSeq
-  simp only [loopOrder, List.foldlM_cons, List.foldlM_nil, underIgnoreInput, runLoop, bind, pure, Except.pure]
+  simp only [loopOrder, List.foldlM_cons, List.foldlM_nil, underIgnoreInput, runLoop, bind, pure, Except.pure,
+    loopKwG_eq, loopPosG_eq, loopZipG_eq, loopUnusedG_eq]
   cases c.ignoreInput
   · simp only [Bool.and_false, Bool.false_eq_true, ↓reduceIte, Bool.and_true]
     cases loopKw c.ps c.strict kw [] [] with
@@ -212,11 +263,14 @@ theorem wrapperContent_eq_seq (c : Cfg) (args : List PV) (kw : List (Name × PV)
           simp only [Except.bind]
           cases b.extras.isEmpty
           · simp only [Bool.false_eq_true, ↓reduceIte]
-            cases loopZip (zipPairs c.ps args u2 ua) r2 u2 with
-            | error e => rfl
-            | ok st3 =>
-              simp only [Except.bind]
-              cases loopUnused c.sig (c.ps.filter (fun p => !st3.2.contains p.name)) st3.1 <;> rfl
+            cases zipRefuses c.ps c.strict args b.extras u2 ua
+            · simp only [Bool.false_eq_true, ↓reduceIte]
+              cases loopZip (zipPairs c.ps args b.extras u2 ua) r2 u2 with
+              | error e => rfl
+              | ok st3 =>
+                simp only [Except.bind]
+                cases loopUnused c.sig (c.ps.filter (fun p => !st3.2.contains p.name)) st3.1 <;> rfl
+            · rfl
           · simp only [↓reduceIte, Except.bind]
             cases loopUnused c.sig (c.ps.filter (fun p => !u2.contains p.name)) r2 <;> rfl
   · simp only [Bool.and_true, ↓reduceIte, Except.bind, Bool.and_false, Bool.false_eq_true]
@@ -233,7 +287,7 @@ theorem gateOut_kw (c : Cfg) : ∀ (kw : List (Name × PV)) (rest : List Item) (
   | cons kv tl ih =>
     intro rest res used
     obtain ⟨k, v⟩ := kv
-    simp only [List.map_cons, List.cons_append, gateOut, itemOut, loopKw, kwStrictTest_eq]
+    simp only [List.map_cons, List.cons_append, gateOut, specFlask_eq, itemOut, specFindP_eq, specDefault_eq, loopKw, kwStrictTest_eq]
     cases hf : findP c.ps k with
     | none =>
       simp only
@@ -255,14 +309,14 @@ theorem gateOut_pos (c : Cfg) : ∀ (bd : List (Name × PV)) (rest : List Item) 
   | cons kv tl ih =>
     intro rest res used ua
     obtain ⟨k, v⟩ := kv
-    simp only [List.map_cons, List.cons_append, gateOut, itemOut, loopPos, posStrictTest_eq, receiver_eq_spec]
+    simp only [List.map_cons, List.cons_append, gateOut, specFlask_eq, itemOut, specFindP_eq, specDefault_eq, loopPos, posStrictTest_eq, receiver_eq_spec]
     simp only [← receiver_eq_spec]
     cases hf : findP c.ps k with
     | none =>
       simp only
       by_cases hs : (c.strict && some k != c.sig.receiver) = true
       · simp [hs, Except.bind]
-      · simpa [hs] using ih rest (res.set k v) used ua
+      · simpa [hs] using ih rest (res.set k v) used _
     | some p =>
       simp only [← validate_is_chain_fold]
       cases hv : p.validate v with
@@ -273,10 +327,10 @@ theorem gateOut_absent (c : Cfg) : ∀ (l : List VParam) (res : Assoc),
     gateOut c (l.map Item.absent) res = (loopUnused c.sig l res).bind (flaskCheck c.ps c.strict c.req) := by
   intro l
   induction l with
-  | nil => intro res; simp [loopUnused, gateOut, Except.bind]
+  | nil => intro res; simp [loopUnused, gateOut, specFlask_eq, Except.bind]
   | cons p tl ih =>
     intro res
-    simp only [List.map_cons, gateOut, itemOut, loopUnused, ← isRequired_eq]
+    simp only [List.map_cons, gateOut, specFlask_eq, itemOut, specFindP_eq, specDefault_eq, loopUnused, ← isRequired_eq]
     cases he : p.ext with
     | some v =>
       simp only [← validate_is_chain_fold]
@@ -416,11 +470,82 @@ theorem zip_any_key : ∀ (l : List Name) (args : List PV) (n : Name),
       congr 1
       exact Bool.beq_comm
 
-/-- **C12 (processing order).** For a function without `*args` the dict that `_wrapper_content` hands over — or the
-    exception it raises — is what the items of the call give when processed in order: keywords in the caller's order,
-    positionals in signature order, then the declared parameters the caller did not supply in declaration order; the
-    first failing item decides. -/
-theorem gate_spec (c : Cfg) (args : List PV) (kw : List (Name × PV)) (hva : c.sig.varArgs = false) :
+theorem gateOut_zip (c : Cfg) : ∀ (pairs : List (PV × VParam)) (rest : List Item) (res : Assoc) (used : List Name),
+    gateOut c (pairs.map (fun ap => Item.zip ap.2 ap.1) ++ rest) res
+      = (loopZip pairs res used).bind (fun st => gateOut c rest st.1) := by
+  intro pairs
+  induction pairs with
+  | nil => intro rest res used; simp [loopZip, Except.bind]
+  | cons ap tl ih =>
+    intro rest res used
+    obtain ⟨a, p⟩ := ap
+    simp only [List.map_cons, List.cons_append, gateOut, specFlask_eq, itemOut, specFindP_eq, specDefault_eq, loopZip,
+      ← validate_is_chain_fold]
+    cases hv : p.validate a with
+    | error e => simp [Except.map, bind, Except.bind]
+    | ok w => simp only [Except.map, bind, Except.bind]; exact ih rest _ _
+
+theorem loopZip_used : ∀ (pairs : List (PV × VParam)) (res res' : Assoc) (used used' : List Name),
+    loopZip pairs res used = .ok (res', used') → used' = used ++ pairs.map (·.2.name) := by
+  intro pairs
+  induction pairs with
+  | nil => intro res res' used used' h; simp only [loopZip, Except.ok.injEq, Prod.mk.injEq] at h; simp [h.2]
+  | cons ap tl ih =>
+    intro res res' used used' h
+    obtain ⟨a, p⟩ := ap
+    simp only [loopZip] at h
+    cases hv : p.validate a with
+    | error e => simp [hv, bind, Except.bind] at h
+    | ok w =>
+      simp only [hv, bind, Except.bind] at h
+      rw [ih _ _ _ _ h]; simp
+
+theorem writeRecord_append (w : Write) (ua : List PV) (v : PV) : writeRecord w ua v = ua ++ writeRecord w [] v := by
+  unfold writeRecord; split <;> simp
+
+/-- `used_args` after the positional loop, in terms of the call -/
+theorem loopPos_ua (ps : List VParam) (strict : Bool) (recv : Option Name) :
+    ∀ (bd : List (Name × PV)) (res res' : Assoc) (used used' : List Name) (ua ua' : List PV),
+      loopPos ps strict recv bd res used ua = .ok (res', used', ua') → ua' = ua ++ recorded ps bd := by
+  intro bd
+  induction bd with
+  | nil =>
+    intro res res' used used' ua ua' h
+    simp only [loopPos, Except.ok.injEq, Prod.mk.injEq] at h
+    simp [recorded, h.2.2]
+  | cons kv tl ih =>
+    intro res res' used used' ua ua' h
+    obtain ⟨k, v⟩ := kv
+    simp only [loopPos] at h
+    cases hf : findP ps k with
+    | none =>
+      simp only [hf] at h
+      split at h
+      · cases h
+      · rw [ih _ _ _ _ _ _ h, writeRecord_append]
+        simp [recorded, hf, List.append_assoc]
+    | some p =>
+      simp only [hf] at h
+      cases hv : p.validate v with
+      | error e => simp [hv, bind, Except.bind] at h
+      | ok w =>
+        simp only [hv, bind, Except.bind] at h
+        rw [ih _ _ _ _ _ _ h, writeRecord_append]
+        simp [recorded, hf, List.append_assoc]
+
+theorem surplusGuard_of_noVarArgs (c : Cfg) (args : List PV) (kw : List (Name × PV)) (hva : c.sig.varArgs = false) :
+    surplusGuard c args kw = true := by
+  simp [surplusGuard, hva]
+
+/-- **C12 (processing order).** The dict that `_wrapper_content` hands over — or the exception it raises — is what the items
+    of the call give when processed in order: keywords in the caller's order, positionals in signature order, for a function
+    with a VAR_POSITIONAL parameter the surplus positionals paired in order with the declared parameters the caller did not
+    supply (`strict`: a surplus positional that no such parameter is left to take raises TooManyArguments), then the remaining
+    declared parameters in declaration order; the first failing item decides.  Any signature; the decidable guard `surplusGuard`
+    (true for every function without `*args`, for every call without surplus positionals, and for every call at all once the
+    zip branch takes the surplus positionals from `bound_args[k]` and has the strict test) names the region of the finding
+    `varPositionalSurplusDropped`. -/
+theorem gate_spec_guarded (c : Cfg) (args : List PV) (kw : List (Name × PV)) (hg : surplusGuard c args kw = true) :
     wrapperContent c args kw = (gate c args kw).out := by
   rw [wrapperContent_eq_seq]
   unfold wrapperSeq gate gateItems
@@ -435,31 +560,100 @@ theorem gate_spec (c : Cfg) (args : List PV) (kw : List (Name × PV)) (hva : c.s
     | ok st1 =>
       obtain ⟨r1, u1⟩ := st1
       simp only [Except.bind]
+      -- the parameters not used after the first two loops are the ones the caller did not supply
+      have hunused : ∀ (r2 : Assoc) (u2 : List Name) (ua : List PV),
+          loopPos c.ps c.strict c.sig.receiver (c.sig.posNames.zip args) r1 u1 [] = .ok (r2, u2, ua) →
+          c.ps.filter (fun p => !u2.contains p.name) = unsupplied c args kw := by
+        intro r2 u2 ua h2
+        unfold unsupplied
+        apply List.filter_congr
+        intro p hp
+        have hsome := findP_isSome_of_mem c.ps p hp
+        have hu1 := loopKw_used c.ps c.strict kw [] r1 [] u1 h1 p.name
+        have hu2 := loopPos_used c.ps c.strict _ _ r1 r2 u1 u2 [] ua h2 p.name
+        have : u2.contains p.name = supplied c.sig args kw p.name := by
+          rw [Bool.eq_iff_iff]
+          simp only [List.contains_iff_mem, hu2, hu1, supplied, zip_any_key, hsome, and_true, List.not_mem_nil, false_or,
+            Bool.or_eq_true]
+        rw [this]
       unfold bindPartial
       by_cases hlen : args.length ≤ c.sig.pos.length
-      · have hlen' : ¬ args.length > c.sig.pos.length := by omega
-        simp only [hlen, hlen', ↓reduceIte, List.nil_append, List.isEmpty_nil]
+      · -- no surplus positional
+        have hlen' : ¬ args.length > c.sig.pos.length := by omega
+        have hsur : surplusArgs c.sig args = [] := by
+          unfold surplusArgs; split
+          · exact List.drop_eq_nil_of_le hlen
+          · rfl
+        have hz : zipped c args kw = [] := by simp [zipped, hsur]
+        have hft : ∀ (l : List VParam), l.filter (fun _ => true) = l := fun l => List.filter_eq_self.mpr (by simp)
+        simp only [hlen, hlen', ↓reduceIte, List.nil_append, List.isEmpty_nil, decide_false, Bool.false_and, Bool.false_eq_true,
+          hsur, List.length_nil, hz, List.map_nil, List.contains_nil, Bool.not_false, hft, Nat.not_lt_zero,
+          Bool.and_false, gt_iff_lt]
         rw [gateOut_pos c _ _ r1 u1 []]
         cases h2 : loopPos c.ps c.strict c.sig.receiver (c.sig.posNames.zip args) r1 u1 [] with
         | error e => simp [Except.bind]
         | ok st2 =>
           obtain ⟨r2, u2, ua⟩ := st2
           simp only [Except.bind]
-          rw [gateOut_absent]
-          have hf : c.ps.filter (fun p => !supplied c.sig args kw p.name) = c.ps.filter (fun p => !u2.contains p.name) := by
-            apply List.filter_congr
-            intro p hp
-            have hsome := findP_isSome_of_mem c.ps p hp
-            have hu1 := loopKw_used c.ps c.strict kw [] r1 [] u1 h1 p.name
-            have hu2 := loopPos_used c.ps c.strict _ _ r1 r2 u1 u2 [] ua h2 p.name
-            have : u2.contains p.name = supplied c.sig args kw p.name := by
-              rw [Bool.eq_iff_iff]
-              simp only [List.contains_iff_mem, hu2, hu1, supplied, zip_any_key, hsome, and_true, List.not_mem_nil, false_or,
-                Bool.or_eq_true]
-            rw [this]
-          rw [hf]; rfl
+          rw [gateOut_absent, ← hunused r2 u2 ua h2]
+          rfl
       · have hlen' : args.length > c.sig.pos.length := by omega
-        simp [hlen, hlen', hva, gateOut, itemOut, Except.bind]
+        cases hva : c.sig.varArgs with
+        | false => simp [hlen, hlen', hva, gateOut, specFlask_eq, itemOut, specFindP_eq, specDefault_eq, Except.bind]
+        | true =>
+          -- the zip branch
+          have hg' := hg
+          simp only [surplusGuard, hva, Bool.not_true, Bool.false_or, hlen, decide_false, Bool.and_eq_true, beq_iff_eq] at hg'
+          obtain ⟨hsrc, hstrict⟩ := hg'
+          have hzb : zipBranchTest (c.sig.varName == argsName) c.sig.wantsArgs true = true := by simp [zipBranchTest]
+          have hsur : surplusArgs c.sig args = args.drop c.sig.pos.length := by simp [surplusArgs, hva]
+          have hne : (args.drop c.sig.pos.length).isEmpty = false := by
+            cases hd : args.drop c.sig.pos.length with
+            | nil => have := List.drop_eq_nil_iff.mp hd; omega
+            | cons x xs => rfl
+          simp only [hlen, hlen', ↓reduceIte, hva, hzb, decide_true, Bool.not_true, Bool.and_false, Bool.false_eq_true,
+            List.nil_append, hne]
+          rw [gateOut_pos c _ _ r1 u1 []]
+          cases h2 : loopPos c.ps c.strict c.sig.receiver (c.sig.posNames.zip args) r1 u1 [] with
+          | error e => simp [Except.bind]
+          | ok st2 =>
+            obtain ⟨r2, u2, ua⟩ := st2
+            simp only [Except.bind]
+            have hua : ua = recorded c.ps (c.sig.posNames.zip args) := by
+              have := loopPos_ua c.ps c.strict _ _ r1 r2 u1 u2 [] ua h2
+              simpa using this
+            have hun := hunused r2 u2 ua h2
+            have hpairs : zipPairs c.ps args (args.drop c.sig.pos.length) u2 ua = zipped c args kw := by
+              unfold zipPairs zipped unusedParams
+              rw [hun, hua, hsrc, hsur]
+            have hrefuse : zipRefuses c.ps c.strict args (args.drop c.sig.pos.length) u2 ua
+                = (c.strict && decide ((surplusArgs c.sig args).length > (unsupplied c args kw).length)) := by
+              unfold zipRefuses unusedParams
+              rw [hun, hua, hsrc, hsur, hstrict]
+            rw [hrefuse, hpairs]
+            by_cases hleft : (c.strict && decide ((surplusArgs c.sig args).length > (unsupplied c args kw).length)) = true
+            · simp [hleft, gateOut, specFlask_eq, itemOut]
+            · simp only [hleft, Bool.false_eq_true, ↓reduceIte, List.nil_append]
+              rw [gateOut_zip c _ _ r2 u2]
+              cases h3 : loopZip (zipped c args kw) r2 u2 with
+              | error e => simp [Except.bind]
+              | ok st3 =>
+                obtain ⟨r3, u3⟩ := st3
+                simp only [Except.bind]
+                rw [gateOut_absent]
+                have hu3 := loopZip_used _ _ _ _ _ h3
+                have hf : c.ps.filter (fun p => !u3.contains p.name)
+                    = (unsupplied c args kw).filter (fun p => !((zipped c args kw).map (·.2.name)).contains p.name) := by
+                  rw [← hun, List.filter_filter, hu3]
+                  apply List.filter_congr
+                  intro p _
+                  simp only [List.contains_append, Bool.not_or, Bool.and_comm]
+                rw [hf]; rfl
+
+/-- **C12 (processing order), functions without `*args`.** -/
+theorem gate_spec (c : Cfg) (args : List PV) (kw : List (Name × PV)) (hva : c.sig.varArgs = false) :
+    wrapperContent c args kw = (gate c args kw).out :=
+  gate_spec_guarded c args kw (surplusGuard_of_noVarArgs c args kw hva)
 
 
 /-! ## Per-name characterisation of the three loops -/
@@ -1099,7 +1293,8 @@ theorem runValidators_error_names (name : Name) (hne : (name != emptyName) = tru
     exception of a validator that did not raise `ValidatorException` -/
 theorem validate_error_names (p : VParam) (v : PV) (e : VExc) (h : p.validate v = .error e) :
     (∃ w, e = .parameter p.name w) ∨ (∃ i, e = .foreign i) := by
-  unfold VParam.validate at h
+  rw [validate_unfold] at h
+  unfold VParam.validateRef at h
   cases v with
   | none =>
     simp only at h
@@ -1298,27 +1493,31 @@ theorem reject_blocks_body_pos (c : Cfg) (a : Bool) (m : Mode) (args : List PV) 
 
 /-- **C12 (gate, `*args` branch).** If the positional loop reaches the `zip` of the surplus positionals with the
     parameters not used so far and one of these pairs is rejected, the body does not run. -/
-theorem reject_blocks_body_zip (c : Cfg) (a : Bool) (m : Mode) (args : List PV) (kw : List (Name × PV))
+theorem reject_blocks_body_zip_of_loops (c : Cfg) (a : Bool) (m : Mode) (args : List PV) (kw : List (Name × PV))
     (hi : c.ignoreInput = false) (r1 : Assoc) (u1 : List Name) (b : Bound) (r2 : Assoc) (u2 : List Name) (ua : List PV)
     (h1 : loopKw c.ps c.strict kw [] [] = .ok (r1, u1)) (hb : bindPartial c.sig args = .ok b)
     (h2 : loopPos c.ps c.strict c.sig.receiver b.named r1 u1 [] = .ok (r2, u2, ua)) (hex : b.extras.isEmpty = false)
-    (h : ∃ ap ∈ zipPairs c.ps args u2 ua, ∃ e, ap.2.validate ap.1 = .error e) :
+    (h : ∃ ap ∈ zipPairs c.ps args b.extras u2 ua, ∃ e, ap.2.validate ap.1 = .error e) :
     ∃ e, runValidate c a m args kw = .error e := by
-  obtain ⟨e, he⟩ := loopZip_blocks (zipPairs c.ps args u2 ua) r2 u2 h
-  refine ⟨e, run_error_of_content_error c a m args kw e ?_⟩
-  rw [wrapperContent_eq_seq]
-  simp [wrapperSeq, hi, h1, hb, h2, hex, he, Except.bind]
+  obtain ⟨e, he⟩ := loopZip_blocks (zipPairs c.ps args b.extras u2 ua) r2 u2 h
+  by_cases hz : zipRefuses c.ps c.strict args b.extras u2 ua = true
+  · refine ⟨.tooMany, run_error_of_content_error c a m args kw _ ?_⟩
+    rw [wrapperContent_eq_seq]
+    simp [wrapperSeq, hi, h1, hb, h2, hex, hz, Except.bind]
+  · refine ⟨e, run_error_of_content_error c a m args kw e ?_⟩
+    rw [wrapperContent_eq_seq]
+    simp [wrapperSeq, hi, h1, hb, h2, hex, hz, he, Except.bind]
 
 theorem gateOut_first_error (c : Cfg) : ∀ (pre : List Item) (it : Item) (post : List Item) (res : Assoc) (e : VExc),
     (∀ i ∈ pre, ∃ r, itemOut c i = .ok r) → itemOut c it = .error e → gateOut c (pre ++ it :: post) res = .error e := by
   intro pre
   induction pre with
-  | nil => intro it post res e _ h; simp [gateOut, h]
+  | nil => intro it post res e _ h; simp [gateOut, specFlask_eq, h]
   | cons i pre ih =>
     intro it post res e hpre h
     obtain ⟨r, hr⟩ := hpre i (by simp)
     have hpre' : ∀ j ∈ pre, ∃ r, itemOut c j = .ok r := fun j hj => hpre j (by simp [hj])
-    simp only [List.cons_append, gateOut, hr]
+    simp only [List.cons_append, gateOut, specFlask_eq, hr]
     cases r with
     | none => exact ih it post res e hpre' h
     | some nv => obtain ⟨n, v⟩ := nv; exact ih it post _ e hpre' h
@@ -1330,7 +1529,7 @@ theorem gateOut_error_of_mem (c : Cfg) : ∀ (items : List Item) (res : Assoc) (
   | nil => intro res it e h; simp at h
   | cons i tl ih =>
     intro res it e hmem h
-    simp only [gateOut]
+    simp only [gateOut, specFlask_eq]
     cases hi : itemOut c i with
     | error e' => exact ⟨e', rfl⟩
     | ok r =>
@@ -1341,35 +1540,84 @@ theorem gateOut_error_of_mem (c : Cfg) : ∀ (items : List Item) (res : Assoc) (
         | none => exact ih res it e hmem h
         | some nv => obtain ⟨n, v⟩ := nv; exact ih _ it e hmem h
 
+/-- **C12 (gate), any signature under the guard `surplusGuard`.** Any mode, sync or async: if *any* item of the call fails — a
+    keyword or positional value rejected at any step of its chain, a surplus positional (`*args`) rejected by the chain of the
+    declared parameter it is handed to, a surplus argument in strict mode, a rejected external value, a required parameter
+    without value, a parameter without any default — the body does not run. -/
+theorem reject_blocks_body_guarded (c : Cfg) (a : Bool) (m : Mode) (args : List PV) (kw : List (Name × PV))
+    (hg : surplusGuard c args kw = true) (it : Item) (e : VExc) (hit : it ∈ gateItems c args kw) (hrej : itemOut c it = .error e) :
+    ∃ e', runValidate c a m args kw = .error e' := by
+  obtain ⟨e', he'⟩ := gateOut_error_of_mem c (gateItems c args kw) [] it e hit hrej
+  exact ⟨e', run_error_of_content_error c a m args kw e' (by rw [gate_spec_guarded c args kw hg]; exact he')⟩
+
 /-- **C12 (gate).** Function without `*args`, any mode, sync or async: if *any* item of the call fails — a keyword or
     positional value rejected at any step of its chain, a surplus argument in strict mode, a rejected external value, a
     required parameter without value, a parameter without any default — the body does not run. -/
 theorem reject_blocks_body (c : Cfg) (a : Bool) (m : Mode) (args : List PV) (kw : List (Name × PV))
     (hva : c.sig.varArgs = false) (it : Item) (e : VExc) (hit : it ∈ gateItems c args kw) (hrej : itemOut c it = .error e) :
-    ∃ e', runValidate c a m args kw = .error e' := by
-  obtain ⟨e', he'⟩ := gateOut_error_of_mem c (gateItems c args kw) [] it e hit hrej
-  exact ⟨e', run_error_of_content_error c a m args kw e' (by rw [gate_spec c args kw hva]; exact he')⟩
+    ∃ e', runValidate c a m args kw = .error e' :=
+  reject_blocks_body_guarded c a m args kw (surplusGuard_of_noVarArgs c args kw hva) it e hit hrej
 
 /-- **C12 (which exception).** The exception the caller sees is the one of the *first* failing item in processing order
     (keywords in the caller's order, then positionals in signature order, then the unused parameters in declaration
     order); by `itemOut_error_names` it is a `ParameterException` naming that item's parameter, `TooManyArguments` for a
     surplus argument in strict mode, or `ValidateException`. -/
-theorem first_rejecting_decides (c : Cfg) (a : Bool) (m : Mode) (args : List PV) (kw : List (Name × PV))
-    (hva : c.sig.varArgs = false) (pre post : List Item) (it : Item) (e : VExc)
+theorem first_rejecting_decides_guarded (c : Cfg) (a : Bool) (m : Mode) (args : List PV) (kw : List (Name × PV))
+    (hg : surplusGuard c args kw = true) (pre post : List Item) (it : Item) (e : VExc)
     (hsplit : gateItems c args kw = pre ++ it :: post) (hpre : ∀ i ∈ pre, ∃ r, itemOut c i = .ok r)
     (hrej : itemOut c it = .error e) :
     runValidate c a m args kw = .error e := by
   apply run_error_of_content_error
-  rw [gate_spec c args kw hva]
+  rw [gate_spec_guarded c args kw hg]
   simp only [gate, hsplit]
   exact gateOut_first_error c pre it post [] e hpre hrej
+
+theorem first_rejecting_decides (c : Cfg) (a : Bool) (m : Mode) (args : List PV) (kw : List (Name × PV))
+    (hva : c.sig.varArgs = false) (pre post : List Item) (it : Item) (e : VExc)
+    (hsplit : gateItems c args kw = pre ++ it :: post) (hpre : ∀ i ∈ pre, ∃ r, itemOut c i = .ok r)
+    (hrej : itemOut c it = .error e) :
+    runValidate c a m args kw = .error e :=
+  first_rejecting_decides_guarded c a m args kw (surplusGuard_of_noVarArgs c args kw hva) pre post it e hsplit hpre hrej
+
+/-- **C12 (gate, the surplus positionals of `*args`), stated over the call.** The i-th surplus positional is handed to the i-th
+    declared parameter the caller did not supply (declaration order): if that parameter's chain rejects it, the body does not
+    run.  Under the guard `surplusGuard` (region of the finding `varPositionalSurplusDropped`). -/
+theorem reject_blocks_body_zip (c : Cfg) (a : Bool) (m : Mode) (args : List PV) (kw : List (Name × PV))
+    (hg : surplusGuard c args kw = true) (hi : c.ignoreInput = false) (v : PV) (p : VParam)
+    (hmem : (v, p) ∈ zipped c args kw) (hrej : ∃ e, p.validate v = .error e) :
+    ∃ e, runValidate c a m args kw = .error e := by
+  obtain ⟨e, he⟩ := hrej
+  refine reject_blocks_body_guarded c a m args kw hg (.zip p v) e ?_ ?_
+  · unfold gateItems
+    simp only [hi, Bool.false_eq_true, ↓reduceIte, List.mem_append, List.mem_map]
+    exact Or.inl (Or.inr ⟨(v, p), hmem, rfl⟩)
+  · simp [itemOut, ← validate_is_chain_fold, he, Except.map]
+
+/-- the full statement of the strict clause for surplus positionals: with `strict=True` a surplus positional that no declared
+    parameter is left to take — an argument without declared Parameter — stops the call, whatever the signature -/
+def strict_surplus_positional_full : Prop :=
+  ∀ (c : Cfg) (a : Bool) (m : Mode) (args : List PV) (kw : List (Name × PV)),
+    c.ignoreInput = false → c.strict = true → (surplusArgs c.sig args).length > (unsupplied c args kw).length →
+    ∃ e, runValidate c a m args kw = .error e
+
+/-- **C12 (strict, surplus positionals), under the guard `surplusGuard`**; the exception is `TooManyArguments` when nothing
+    earlier in processing order failed (`first_rejecting_decides_guarded` with the item `.surplusLeft`). -/
+theorem strict_surplus_positional_partial (c : Cfg) (a : Bool) (m : Mode) (args : List PV) (kw : List (Name × PV))
+    (hg : surplusGuard c args kw = true) (hi : c.ignoreInput = false) (hs : c.strict = true)
+    (hmore : (surplusArgs c.sig args).length > (unsupplied c args kw).length) :
+    ∃ e, runValidate c a m args kw = .error e := by
+  refine reject_blocks_body_guarded c a m args kw hg .surplusLeft .tooMany ?_ rfl
+  unfold gateItems
+  simp [hi, hs, hmore]
 
 /-- the parameter an item is about -/
 def Item.paramName : Item → Option Name
   | .kw k _ => some k
   | .pos k _ => some k
   | .absent p => some p.name
+  | .zip p _ => some p.name
   | .surplusPos => none
+  | .surplusLeft => none
 
 /-- what a failing item raises: a `ParameterException` carrying *its* parameter's name (a step of the chain rejected, or
     the value is None / missing and the parameter is required), `TooManyArguments` (strict, no Parameter declared),
@@ -1391,7 +1639,7 @@ theorem itemOut_error_names (c : Cfg) (it : Item) (e : VExc) (h : itemOut c it =
       · exact Or.inr hf
   cases it with
   | kw k v =>
-    simp only [itemOut] at h
+    simp only [itemOut, specFindP_eq, specDefault_eq] at h
     cases hf : findP c.ps k with
     | some p =>
       rw [hf] at h
@@ -1404,9 +1652,15 @@ theorem itemOut_error_names (c : Cfg) (it : Item) (e : VExc) (h : itemOut c it =
       split at h
       · simp only [Except.error.injEq] at h; exact Or.inr (Or.inl h.symm)
       · cases h
-  | surplusPos => simp only [itemOut, Except.error.injEq] at h; exact Or.inr (Or.inr (Or.inl h.symm))
-  | pos k v =>
+  | surplusPos => simp only [itemOut, specFindP_eq, specDefault_eq, Except.error.injEq] at h; exact Or.inr (Or.inr (Or.inl h.symm))
+  | surplusLeft => simp only [itemOut, Except.error.injEq] at h; exact Or.inr (Or.inl h.symm)
+  | zip p v =>
     simp only [itemOut] at h
+    rcases hval p v p.name rfl h with ⟨w, hw⟩ | hfo
+    · exact Or.inl ⟨p.name, w, rfl, hw⟩
+    · exact Or.inr (Or.inr (Or.inr hfo))
+  | pos k v =>
+    simp only [itemOut, specFindP_eq, specDefault_eq] at h
     cases hf : findP c.ps k with
     | some p =>
       rw [hf] at h
@@ -1420,7 +1674,7 @@ theorem itemOut_error_names (c : Cfg) (it : Item) (e : VExc) (h : itemOut c it =
       · simp only [Except.error.injEq] at h; exact Or.inr (Or.inl h.symm)
       · cases h
   | absent p =>
-    simp only [itemOut] at h
+    simp only [itemOut, specFindP_eq, specDefault_eq] at h
     cases he : p.ext with
     | some v =>
       rw [he] at h
@@ -1475,8 +1729,8 @@ theorem strict_surplus (c : Cfg) (a : Bool) (m : Mode) (args : List PV) (kw : Li
     (hpre : ∀ i ∈ pre, ∃ r, itemOut c i = .ok r) :
     runValidate c a m args kw = .error .tooMany := by
   rcases hsplit with h | ⟨hk, h⟩
-  · exact first_rejecting_decides c a m args kw hva pre post _ _ h hpre (by simp [itemOut, hnone, hs])
-  · exact first_rejecting_decides c a m args kw hva pre post _ _ h hpre (by simp [itemOut, hnone, hs, hk])
+  · exact first_rejecting_decides c a m args kw hva pre post _ _ h hpre (by simp [itemOut, specFindP_eq, specDefault_eq, hnone, hs])
+  · exact first_rejecting_decides c a m args kw hva pre post _ _ h hpre (by simp [itemOut, specFindP_eq, specDefault_eq, hnone, hs, hk])
 
 /-- `Parameter.validate(None)`: raises for a required parameter, returns None *without touching conversion or
     validators* otherwise -/
@@ -1484,7 +1738,7 @@ theorem validate_none (p : VParam) :
     p.validate .none = (if p.requiredArg = true ∧ p.dflt = none then .error (.parameter p.name .required) else .ok .none)
     ∧ specJournal p .none = [] := by
   refine ⟨?_, by simp [specJournal]⟩
-  simp only [VParam.validate, isRequired_eq, VParam.specRequired]
+  simp only [validate_unfold, VParam.validateRef, isRequired_eq, VParam.specRequired]
   cases p.requiredArg <;> cases p.dflt <;> simp
 
 /-- **C12 (required).** A required parameter (`required=True` and no default given) that receives None by keyword or
@@ -1508,7 +1762,7 @@ theorem required_missing_blocks (c : Cfg) (a : Bool) (m : Mode) (args : List PV)
     (∀ pre post, gateItems c args kw = pre ++ Item.absent p :: post → (∀ i ∈ pre, ∃ r, itemOut c i = .ok r) →
       runValidate c a m args kw = .error (.parameter p.name .required)) := by
   have hout : itemOut c (.absent p) = .error (.parameter p.name .required) := by
-    simp [itemOut, hext, VParam.specRequired, hreq, hd]
+    simp [itemOut, specFindP_eq, specDefault_eq, hext, VParam.specRequired, hreq, hd]
   refine ⟨?_, fun pre post hs hpre => first_rejecting_decides c a m args kw hva pre post _ _ hs hpre hout⟩
   apply reject_blocks_body c a m args kw hva (.absent p) _ _ hout
   unfold gateItems
@@ -1516,7 +1770,9 @@ theorem required_missing_blocks (c : Cfg) (a : Bool) (m : Mode) (args : List PV)
   · simp only [h, ↓reduceIte, List.mem_map]; exact ⟨p, hp, rfl⟩
   · by_cases hi : c.ignoreInput = true
     · simp only [hi, ↓reduceIte, List.mem_map]; exact ⟨p, hp, rfl⟩
-    · simp only [hi, Bool.false_eq_true, ↓reduceIte, List.mem_append, List.mem_map, List.mem_filter]
+    · have hz : zipped c args kw = [] := by simp [zipped, surplusArgs, hva]
+      simp only [hi, Bool.false_eq_true, ↓reduceIte, List.mem_append, List.mem_map, List.mem_filter, unsupplied, hz, List.map_nil,
+        List.contains_nil, Bool.not_false, and_true]
       exact Or.inr ⟨p, ⟨hp, by simp [h]⟩, rfl⟩
 
 /-- **C12 (default cascade, failure end).** A non-required parameter that is not supplied, has no external value, no
@@ -1528,7 +1784,7 @@ theorem missing_without_default_blocks (c : Cfg) (a : Bool) (m : Mode) (args : L
     (∀ pre post, gateItems c args kw = pre ++ Item.absent p :: post → (∀ i ∈ pre, ∃ r, itemOut c i = .ok r) →
       runValidate c a m args kw = .error .validate) := by
   have hout : itemOut c (.absent p) = .error .validate := by
-    simp [itemOut, hext, VParam.specRequired, hreq, hd, hsd]
+    simp [itemOut, specFindP_eq, specDefault_eq, hext, VParam.specRequired, hreq, hd, hsd]
   refine ⟨?_, fun pre post hs hpre => first_rejecting_decides c a m args kw hva pre post _ _ hs hpre hout⟩
   apply reject_blocks_body c a m args kw hva (.absent p) _ _ hout
   unfold gateItems
@@ -1536,7 +1792,9 @@ theorem missing_without_default_blocks (c : Cfg) (a : Bool) (m : Mode) (args : L
   · simp only [h, ↓reduceIte, List.mem_map]; exact ⟨p, hp, rfl⟩
   · by_cases hi : c.ignoreInput = true
     · simp only [hi, ↓reduceIte, List.mem_map]; exact ⟨p, hp, rfl⟩
-    · simp only [hi, Bool.false_eq_true, ↓reduceIte, List.mem_append, List.mem_map, List.mem_filter]
+    · have hz : zipped c args kw = [] := by simp [zipped, surplusArgs, hva]
+      simp only [hi, Bool.false_eq_true, ↓reduceIte, List.mem_append, List.mem_map, List.mem_filter, unsupplied, hz, List.map_nil,
+        List.contains_nil, Bool.not_false, and_true]
       exact Or.inr ⟨p, ⟨hp, by simp [h]⟩, rfl⟩
 
 /-! ### hypotheses in terms of `List.Nodup` -/
@@ -1868,6 +2126,25 @@ theorem loopUnused_inv (c : Cfg) (args : List PV) (kw : List (Name × PV)) :
 
 /-- the generated test of the `zip` branch (`k == var_positional`): the surplus positionals of a VAR_POSITIONAL parameter go
     through the `zip` branch whatever the parameter is called — the tuple is never handled as an ordinary argument -/
+theorem bindPartial_extras_sub (sig : Sig) (args : List PV) (b : Bound)
+    (hb : bindPartial sig args = .ok b) : ∀ x ∈ b.extras, x ∈ args := by
+  unfold bindPartial at hb
+  split at hb
+  · simp only [Except.ok.injEq] at hb; subst hb; intro x hx; cases hx
+  · split at hb
+    · split at hb
+      · simp only [Except.ok.injEq] at hb; subst hb; intro x hx; exact List.mem_of_mem_drop hx
+      · simp only [Except.ok.injEq] at hb; subst hb; intro x hx; cases hx
+    · cases hb
+
+/-- whatever the zip branch takes for the surplus positionals (either shape of the source) are positionals of the call -/
+theorem surplusOf_sub (args extras ua : List PV) (h : ∀ x ∈ extras, x ∈ args) : ∀ x ∈ surplusOf args extras ua, x ∈ args := by
+  intro x hx
+  unfold surplusOf at hx
+  split at hx
+  · exact (List.mem_filter.mp hx).1
+  · exact h x hx
+
 theorem bindPartial_named (sig : Sig) (args : List PV) (b : Bound)
     (hb : bindPartial sig args = .ok b) : b.named = sig.posNames.zip args := by
   unfold bindPartial at hb
@@ -1922,7 +2199,9 @@ theorem res_only_chain_outputs (c : Cfg) (args : List PV) (kw : List (Name × PV
           simp only at h
           have inv2 := loopPos_inv c args kw b.named r1 r2 u1 u2 [] ua
             (fun kv hkv => by rw [hbn] at hkv; exact hkv) inv1 h2
-          cases hz : (if b.extras.isEmpty = true then Except.ok (r2, u2) else loopZip (zipPairs c.ps args u2 ua) r2 u2) with
+          cases hz : (if b.extras.isEmpty = true then Except.ok (r2, u2)
+              else if zipRefuses c.ps c.strict args b.extras u2 ua = true then Except.error VExc.tooMany
+              else loopZip (zipPairs c.ps args b.extras u2 ua) r2 u2) with
           | error e => rw [hz] at h; cases h
           | ok st3 =>
             obtain ⟨r3, u3⟩ := st3
@@ -1931,11 +2210,14 @@ theorem res_only_chain_outputs (c : Cfg) (args : List PV) (kw : List (Name × PV
             have inv3 : ∀ e ∈ r3, EntryOk c args kw e := by
               split at hz
               · simp only [Except.ok.injEq, Prod.mk.injEq] at hz; obtain ⟨rfl, _⟩ := hz; exact inv2
-              · refine loopZip_inv c args kw _ r2 r3 u2 u3 ?_ inv2 hz
-                intro ap hap
-                have := List.of_mem_zip hap
-                exact ⟨by simp only [rawInputs, List.mem_append]; exact Or.inl (List.mem_filter.mp this.1).1,
-                       (List.mem_filter.mp this.2).1⟩
+              · split at hz
+                · cases hz
+                · refine loopZip_inv c args kw _ r2 r3 u2 u3 ?_ inv2 hz
+                  intro ap hap
+                  have := List.of_mem_zip hap
+                  exact ⟨by simp only [rawInputs, List.mem_append]
+                            exact Or.inl (surplusOf_sub args b.extras ua (bindPartial_extras_sub c.sig args b hb) _ this.1),
+                         (List.mem_filter.mp this.2).1⟩
             cases h3 : loopUnused c.sig (c.ps.filter (fun p => !u3.contains p.name)) r3 with
             | error e => rw [h3] at h; cases h
             | ok r =>
@@ -2391,7 +2673,9 @@ theorem wrapperContent_pres (c : Cfg) (args : List PV) (kw : List (Name × PV)) 
           obtain ⟨r2, u2, ua⟩ := st2
           rw [h2] at h
           simp only at h
-          cases hz : (if b.extras.isEmpty = true then Except.ok (r2, u2) else loopZip (zipPairs c.ps args u2 ua) r2 u2) with
+          cases hz : (if b.extras.isEmpty = true then Except.ok (r2, u2)
+              else if zipRefuses c.ps c.strict args b.extras u2 ua = true then Except.error VExc.tooMany
+              else loopZip (zipPairs c.ps args b.extras u2 ua) r2 u2) with
           | error e => rw [hz] at h; cases h
           | ok st3 =>
             obtain ⟨r3, u3⟩ := st3
@@ -2401,7 +2685,9 @@ theorem wrapperContent_pres (c : Cfg) (args : List PV) (kw : List (Name × PV)) 
             have p3 : P r3 := by
               split at hz
               · simp only [Except.ok.injEq, Prod.mk.injEq] at hz; obtain ⟨rfl, _⟩ := hz; exact p2
-              · exact loopZip_pres P hP _ _ _ _ _ p2 hz
+              · split at hz
+                · cases hz
+                · exact loopZip_pres P hP _ _ _ _ _ p2 hz
             cases h3 : loopUnused c.sig (c.ps.filter (fun p => !u3.contains p.name)) r3 with
             | error e => rw [h3] at h; cases h
             | ok r =>
@@ -2857,20 +3143,276 @@ theorem gate_by_name (c : Cfg) (a : Bool) (m : Mode) (args : List PV) (kw : List
 theorem gate_by_name_full_proved : gate_by_name_full :=
   fun c a m args kw hva _ _ _ => gate_by_name c a m args kw hva
 
+/-! ### the gate by name, any signature (`*args` included) -/
+
+/-- every named parameter the body receives is an entry of the dict `d` *under its own name*, or the function's own default -/
+def NamedFrom (sig : Sig) (d : Assoc) (b : Binding) : Prop :=
+  ∀ nv ∈ b.named, nv ∈ d ∨ ∃ s ∈ sig.named, s.name = nv.1 ∧ s.dflt = some nv.2
+
+/-- Python's binding of `func(*pos, **kw)`: a named parameter gets the positional value at its own position, the keyword of its
+    own name, or its default -/
+theorem bindCall_namedFrom (sig : Sig) (pos : List PV) (kw : Assoc) (b : Binding) (h : bindCall sig pos kw = .ok b) :
+    ∀ nv ∈ b.named, nv ∈ (sig.posNames.take pos.length).zip pos ∨ nv ∈ kw ∨ ∃ s ∈ sig.named, s.name = nv.1 ∧ s.dflt = some nv.2 := by
+  unfold bindCall at h
+  split at h
+  · cases h
+  · split at h
+    · cases h
+    · simp only [bind, Except.bind] at h
+      cases hm : sig.named.mapM (bindOne ((sig.posNames.take pos.length).zip pos ++ kw)) with
+      | error e => rw [hm] at h; cases h
+      | ok named =>
+        rw [hm] at h
+        simp only [pure, Except.pure, Except.ok.injEq] at h
+        subst h
+        intro nv hnv
+        obtain ⟨s, hs, hfs⟩ := mapM_ok_mem _ _ _ hm nv hnv
+        unfold bindOne at hfs
+        cases hg : Assoc.get? ((sig.posNames.take pos.length).zip pos ++ kw) s.name with
+        | some w =>
+          rw [hg] at hfs
+          simp only [Except.ok.injEq] at hfs
+          subst hfs
+          have := get?_mem _ _ _ hg
+          simp only [List.mem_append] at this
+          rcases this with hz | hk
+          · exact Or.inl hz
+          · exact Or.inr (Or.inl hk)
+        | none =>
+          rw [hg] at hfs
+          cases hd : s.dflt with
+          | some d =>
+            rw [hd] at hfs
+            simp only [Except.ok.injEq] at hfs
+            subst hfs
+            exact Or.inr (Or.inr ⟨s, hs, rfl, hd⟩)
+          | none => rw [hd] at hfs; cases hfs
+
+theorem bindDict_namedFrom (sig : Sig) (d : Assoc) (b : Binding) (h : bindDict sig d = .ok b) : NamedFrom sig d b := by
+  unfold bindDict at h
+  split at h
+  · cases h
+  · simp only [bind, Except.bind] at h
+    cases hm : sig.named.mapM (bindOne d) with
+    | error e => rw [hm] at h; cases h
+    | ok named =>
+      rw [hm] at h
+      simp only [pure, Except.pure, Except.ok.injEq] at h
+      subst h
+      intro nv hnv
+      obtain ⟨s, hs, hfs⟩ := mapM_ok_mem _ _ _ hm nv hnv
+      unfold bindOne at hfs
+      cases hg : Assoc.get? d s.name with
+      | some v =>
+        rw [hg] at hfs
+        simp only [Except.ok.injEq] at hfs
+        subst hfs
+        exact Or.inl (get?_mem _ _ _ hg)
+      | none =>
+        rw [hg] at hfs
+        cases hdf : s.dflt with
+        | some dv =>
+          rw [hdf] at hfs
+          simp only [Except.ok.injEq] at hfs
+          subst hfs
+          exact Or.inr ⟨s, hs, rfl, hdf⟩
+        | none => rw [hdf] at hfs; cases hfs
+
+/-- values handed over positionally in dict order land under their own names when the keys follow the signature -/
+theorem zip_keys_mem : ∀ (res : Assoc) (names : List Name),
+    (∀ i, i < names.length → i < res.length → (res.map (·.1))[i]? = names[i]?) →
+    ∀ e ∈ names.zip (res.map (·.2)), e ∈ res := by
+  intro res
+  induction res with
+  | nil => intro names _ e he; simp at he
+  | cons kv tl ih =>
+    intro names hk e he
+    cases names with
+    | nil => simp at he
+    | cons n ns =>
+      simp only [List.map_cons, List.zip_cons_cons, List.mem_cons] at he
+      have h0 := hk 0 (by simp) (by simp)
+      simp only [List.map_cons, List.getElem?_cons_zero, Option.some.injEq] at h0
+      rcases he with rfl | he
+      · rw [← h0]; simp
+      · refine List.mem_cons_of_mem _ (ih ns ?_ e he)
+        intro i hi1 hi2
+        have := hk (i + 1) (by simp; omega) (by simp; omega)
+        simpa using this
+
+theorem keysFollowSignature_spec (sig : Sig) (res : Assoc) (h : keysFollowSignature sig res = true) :
+    ∀ i, i < (sig.posNames.take res.length).length → i < res.length →
+      (res.map (·.1))[i]? = (sig.posNames.take res.length)[i]? := by
+  intro i hi1 hi2
+  unfold keysFollowSignature at h
+  have h' : (res.map (·.1)).take sig.pos.length = sig.posNames.take res.length := by simpa using h
+  rw [← h']
+  have hlt : i < sig.pos.length := by
+    have : (sig.posNames.take res.length).length ≤ sig.pos.length := by simp [Sig.posNames]; omega
+    omega
+  rw [List.getElem?_take_of_lt hlt]
+
+/-- **the hand-over, any signature**: under the guard `handOverByName` (no VAR_POSITIONAL parameter, or a KWARGS mode, or the
+    receiver of a method first, or dict keys in signature order) every named parameter the body receives is an entry of the
+    dict handed over *under that very name*, or the function's own default -/
+theorem dispatch_namedFrom (c : Cfg) (a : Bool) (m : Mode) (res : Assoc) (b : Binding)
+    (hg : handOverByName c m res = true) (h : dispatch c.sig a m res = .ok b) :
+    ∀ nv ∈ b.named, nv ∈ res ∨ ∃ s ∈ c.sig.named, s.name = nv.1 ∧ s.dflt = some nv.2 := by
+  cases hva : c.sig.varArgs with
+  | false =>
+    have hb := dispatch_ok_bindDict c.sig a m res b hva h
+    intro nv hnv
+    rcases bindDict_namedFrom _ _ _ hb nv hnv with h1 | h2
+    · left
+      split at h1
+      · exact (List.mem_filter.mp h1).1
+      · exact h1
+    · exact Or.inr h2
+  | true =>
+    -- one hand-over step on a dict `d` whose entries are entries of `res`
+    have selfKw : ∀ (d : Assoc), (∀ e ∈ d, e ∈ res) → d.hasKey (specReceiver c.sig) = true →
+        callWith c.sig (specReceiver c.sig) .selfKw d = .ok b →
+        ∀ nv ∈ b.named, nv ∈ res ∨ ∃ s ∈ c.sig.named, s.name = nv.1 ∧ s.dflt = some nv.2 := by
+      intro d hsub hk hc nv hnv
+      obtain ⟨hr, hfirst, sv, hsv⟩ := hasKey_receiver c.sig d hk
+      rw [hr] at hc
+      simp only [callWith, hsv] at hc
+      rcases bindCall_namedFrom _ _ _ _ hc nv hnv with h1 | h2 | h3
+      · left
+        cases hp : c.sig.pos with
+        | nil => simp [Sig.posNames, hp] at h1
+        | cons s0 r =>
+          have hs0 : s0.name = selfName := by
+            simp only [firstParameter, hp, Option.some.injEq] at hfirst; exact hfirst
+          simp only [Sig.posNames, hp, List.map_cons, List.length_singleton, List.take_succ_cons, List.take_zero, hs0,
+            List.zip_cons_cons, List.zip_nil_right, List.mem_singleton] at h1
+          subst h1
+          exact hsub _ (get?_mem _ _ _ hsv)
+      · exact Or.inl (hsub _ (List.mem_filter.mp h2).1)
+      · exact Or.inr h3
+    have kwForm : ∀ (d : Assoc), (∀ e ∈ d, e ∈ res) → callWith c.sig (specReceiver c.sig) .kw d = .ok b →
+        ∀ nv ∈ b.named, nv ∈ res ∨ ∃ s ∈ c.sig.named, s.name = nv.1 ∧ s.dflt = some nv.2 := by
+      intro d hsub hc nv hnv
+      rw [callWith_kw_eq] at hc
+      rcases bindDict_namedFrom _ _ _ hc nv hnv with h1 | h2
+      · exact Or.inl (hsub _ h1)
+      · exact Or.inr h2
+    have hwn : ∀ e ∈ withoutNone res, e ∈ res := fun e he => (List.mem_filter.mp he).1
+    rw [dispatch_unfold] at h
+    cases m with
+    | kwWithNone =>
+      simp only at h
+      split at h
+      · rename_i hk; exact selfKw res (fun e he => he) hk h
+      · exact kwForm res (fun e he => he) h
+    | kwWithoutNone =>
+      simp only at h
+      split at h
+      · rename_i hk; exact selfKw _ hwn hk h
+      · exact kwForm _ hwn h
+    | args =>
+      simp only at h
+      split at h
+      · rename_i hk; exact selfKw res (fun e he => he) hk h
+      · rename_i hk
+        have hkeys : keysFollowSignature c.sig res = true := by
+          have := hg
+          simp only [handOverByName, hva, hk, Bool.not_true, bne_self_eq_false, Bool.false_or, Bool.and_eq_true] at this
+          exact this.1
+        simp only [callWith, splitBySig, hva, varPosShortcut, Bool.and_self, ↓reduceIte, bind, Except.bind] at h
+        intro nv hnv
+        rcases bindCall_namedFrom _ _ _ _ h nv hnv with h1 | h2 | h3
+        · left
+          simp only [List.length_map] at h1
+          exact zip_keys_mem res _ (keysFollowSignature_spec c.sig res hkeys) nv h1
+        · cases h2
+        · exact Or.inr h3
+
+/-- the full statement of the by-name gate: every signature — a VAR_POSITIONAL parameter included —, every call -/
+def gate_by_name_any_signature_full : Prop :=
+  ∀ (c : Cfg) (a : Bool) (m : Mode) (args : List PV) (kw : List (Name × PV)), GateByName c a m args kw
+
+/-- **C12 (gate by name, any signature), under the decidable guard `handOverGuard`** (`Spec/ValidateRegions.lean`: the function
+    has no VAR_POSITIONAL parameter — then this is `gate_by_name` —, or `return_as` is a KWARGS mode, or the function is a method
+    whose receiver is in the dict, or the keys of the dict stand in signature order): whatever the body receives for a parameter
+    with a declared Parameter went through a Parameter **of that name**, or is the function's own default for it. -/
+theorem gate_by_name_any_signature_partial (c : Cfg) (a : Bool) (m : Mode) (args : List PV) (kw : List (Name × PV))
+    (hg : handOverGuard c m args kw = true) :
+    GateByName c a m args kw := by
+  intro b hrun nv hnv p hp
+  simp only [runValidate, bind, Except.bind] at hrun
+  cases hw : wrapperContent c args kw with
+  | error e => rw [hw] at hrun; cases hrun
+  | ok res =>
+    rw [hw] at hrun
+    simp only at hrun
+    have hinv := res_only_chain_outputs c args kw res hw
+    have hg' : handOverByName c m res = true := by simpa [handOverGuard, hw] using hg
+    rcases dispatch_namedFrom c a m res b hg' hrun nv hnv with hmem | hdef
+    · rcases hinv _ hmem with h1 | ⟨h2, _⟩
+      · exact Or.inl h1
+      · rw [h2] at hp; cases hp
+    · exact Or.inr hdef
+
+/-- `@validate(Parameter('a', validators=[<rejects obj 50>]), Parameter('b', validators=[<rejects obj 150>]))
+    def g(a, b, *rest)` — default mode ARGS (names: a = 2, b = 3; think of `Min(0)` / `Max(-5)` with obj 50 = -10, obj 150 = 7) -/
+def exArrival : Cfg :=
+  { ps := [⟨2, true, none, none, none, [fun v => if v = .obj 50 then .error (.rejected emptyName) else .ok v], false, by decide⟩,
+           ⟨3, true, none, none, none, [fun v => if v = .obj 150 then .error (.rejected emptyName) else .ok v], false, by decide⟩],
+    sig := { pos := [⟨2, none⟩, ⟨3, none⟩], varArgs := true, kwOnly := [] }, strict := true, ignoreInput := false, req := .notJson }
+
+/-- a call's outcome as data (the steps of a Parameter are functions, so `Cfg` itself has no decidable equality; outcomes do) -/
+abbrev Outcome := Except VExc Binding
+instance instDecEqExcept {α : Type} [DecidableEq α] : DecidableEq (Except VExc α) := fun x y =>
+  match x, y with
+  | .ok a, .ok b => if h : a = b then isTrue (by rw [h]) else isFalse (by intro hh; cases hh; exact h rfl)
+  | .error a, .error b => if h : a = b then isTrue (by rw [h]) else isFalse (by intro hh; cases hh; exact h rfl)
+  | .ok _, .error _ => isFalse (by intro hh; cases hh)
+  | .error _, .ok _ => isFalse (by intro hh; cases hh)
+
+/-- the call `g(150, b=50)` (Python: `g(7, b=-10)`): both values pass the chain of the parameter they are meant for; the dict is
+    `{b: 50, a: 150}` (keywords first), handed over as `g(50, 150)` — the body runs with `a = obj 50`, which the chain of `a`
+    rejects.  `g(b=50, a=150)` does the same; `g(50, 150)` is refused; under a KWARGS mode the binding is by name. -/
+theorem arrival_order_witness :
+    (runValidate exArrival false .args [.obj 150] [(3, .obj 50)] : Outcome) = .ok ⟨[(2, .obj 50), (3, .obj 150)], []⟩ ∧
+    (runValidate exArrival true .args [] [(3, .obj 50), (2, .obj 150)] : Outcome) = .ok ⟨[(2, .obj 50), (3, .obj 150)], []⟩ ∧
+    (runValidate exArrival false .args [.obj 50, .obj 150] [] : Outcome) = .error (.parameter 2 (.validator 0)) ∧
+    (runValidate exArrival false .kwWithNone [.obj 150] [(3, .obj 50)] : Outcome) = .ok ⟨[(2, .obj 150), (3, .obj 50)], []⟩ ∧
+    handOverGuard exArrival .args [.obj 150] [(3, .obj 50)] = false := by decide
+
+/-- **negation witness**: without the guard the by-name gate is false on the current code for a plain function with a
+    VAR_POSITIONAL parameter in ARGS mode (finding `varArgsHandOverInArrivalOrder`; the hand-over `list(result.values())` of
+    `_split_by_signature` is pinned by the maintainers' test `test_return_as_args_advanced_different_order`) -/
+theorem gate_by_name_any_signature_fails : ¬ gate_by_name_any_signature_full := by
+  intro h
+  have := h exArrival false .args [.obj 150] [(3, .obj 50)] ⟨[(2, .obj 50), (3, .obj 150)], []⟩ arrival_order_witness.1
+    (2, .obj 50) (by simp) _ rfl
+  rcases this with ⟨q, hq, hqn, hfrom⟩ | ⟨s, hs, _, hd⟩
+  · have hq2 : q = (exArrival.ps)[0] := by
+      simp only [exArrival, List.mem_cons, List.not_mem_nil, or_false] at hq
+      rcases hq with rfl | rfl
+      · rfl
+      · simp at hqn
+    subst hq2
+    rcases hfrom with ⟨x, hx, hv⟩ | ⟨hreq, _⟩
+    · simp only [rawInputs, List.map_cons, List.map_nil, List.cons_append, List.nil_append, List.mem_cons, List.not_mem_nil,
+        or_false] at hx
+      rcases hx with (rfl | rfl) | hx
+      · have e : (exArrival.ps)[0].validate (.obj 150) = .ok (.obj 150) := by rfl
+        rw [e] at hv; simp at hv
+      · have e : (exArrival.ps)[0].validate (.obj 50) = .error (.parameter 2 (.validator 0)) := by rfl
+        rw [e] at hv; cases hv
+      · simp [exArrival] at hx
+    · revert hreq; decide
+  · simp only [exArrival, Sig.named, List.append_nil, List.mem_cons, List.not_mem_nil, or_false] at hs
+    rcases hs with rfl | rfl <;> simp at hd
+
 /-- `@validate(Parameter('a', required=False, validators=[<rejects everything>]), strict=False,
     return_as=ReturnAs.KWARGS_WITHOUT_NONE)  def f(a=<obj 100>)` — a *plain function* -/
 def exSelfEdge : Cfg :=
   { ps := [⟨2, false, none, none, none, [fun _ => .error (.rejected emptyName)], false, by decide⟩],
     sig := { pos := [⟨2, some (.obj 100)⟩], varArgs := false, kwOnly := [] }, strict := false, ignoreInput := false, req := .noContext }
 
-/-- a call's outcome as data (the steps of a Parameter are functions, so `Cfg` itself has no decidable equality; outcomes do) -/
-abbrev Outcome := Except VExc Binding
-instance : DecidableEq Outcome := fun x y =>
-  match x, y with
-  | .ok a, .ok b => if h : a = b then isTrue (by rw [h]) else isFalse (by intro hh; cases hh; exact h rfl)
-  | .error a, .error b => if h : a = b then isTrue (by rw [h]) else isFalse (by intro hh; cases hh; exact h rfl)
-  | .ok _, .error _ => isFalse (by intro hh; cases hh)
-  | .error _, .ok _ => isFalse (by intro hh; cases hh)
 
 /-- **the former failing input of `selfKeywordBypassesGate`, repaired.**  The call `f(None, self=<obj 101>)`: None passes for
     the non-required `a` and is dropped by KWARGS_WITHOUT_NONE; the surplus keyword `self` — the function has no receiver — now
@@ -2963,7 +3505,8 @@ theorem runValidators_relabel (g : Name → Name) (name : Name) (hne : (name != 
     `validate_param` with any name, nest such delegations to any depth) and nothing changes. -/
 theorem validate_independent_of_carried_names (g : Name → Name) (p : VParam) (v : PV) :
     ({ p with validators := p.validators.map (relabel g) } : VParam).validate v = p.validate v := by
-  unfold VParam.validate
+  rw [validate_unfold, validate_unfold]
+  unfold VParam.validateRef
   cases v with
   | none => rfl
   | obj i =>
@@ -3093,8 +3636,8 @@ theorem loopUnused_error_named (ps : List VParam) (sig : Sig) :
           | some d => rw [hsd] at h; exact ih _ _ htl h
           | none => rw [hsd] at h; cases h; intro n w he'; cases he'
 
-theorem zipPairs_mem (ps : List VParam) (args : List PV) (used : List Name) (ua : List PV) :
-    ∀ ap ∈ zipPairs ps args used ua, ap.2 ∈ ps := by
+theorem zipPairs_mem (ps : List VParam) (args extras : List PV) (used : List Name) (ua : List PV) :
+    ∀ ap ∈ zipPairs ps args extras used ua, ap.2 ∈ ps := by
   intro ap hap
   obtain ⟨a, p⟩ := ap
   have := (List.of_mem_zip hap).2
@@ -3150,12 +3693,15 @@ theorem call_rejection_names_the_rejecting_parameter (c : Cfg) (a : Bool) (m : M
           rw [h2] at h
           simp only at h
           cases h3 : (if b.extras.isEmpty then (.ok (st2.1, st2.2.1) : Except VExc (Assoc × List Name))
-              else loopZip (zipPairs c.ps args st2.2.1 st2.2.2) st2.1 st2.2.1) with
+              else if zipRefuses c.ps c.strict args b.extras st2.2.1 st2.2.2 then .error .tooMany
+              else loopZip (zipPairs c.ps args b.extras st2.2.1 st2.2.2) st2.1 st2.2.1) with
           | error e =>
             rw [h3] at h; simp only [Except.error.injEq] at h; subst h
             split at h3
             · cases h3
-            · exact loopZip_error_named _ _ _ _ _ (zipPairs_mem _ _ _ _) h3
+            · split at h3
+              · simp only [Except.error.injEq] at h3; rw [← h3]; intro n w hh; cases hh
+              · exact loopZip_error_named _ _ _ _ _ (zipPairs_mem _ _ _ _ _) h3
           | ok st3 =>
             rw [h3] at h
             simp only at h
@@ -3259,7 +3805,56 @@ example : runValidate { exRest false 10 with ps := [⟨2, true, none, none, none
       ⟨3, false, some (.obj 70), none, none, [exV 2 [101]], false, by decide⟩] } false .args [.obj 100, .obj 101] []
     = .error (.parameter 3 (.validator 0)) := by rfl
 
-/-- the generated test of the `zip` branch is exactly "k is the VAR_POSITIONAL parameter of the signature" -/
+/-! ### the surplus positionals in the current shape of the zip branch (finding `varPositionalSurplusDropped`)
+
+`[a for a in args if a not in used_args]` filters ALL positionals of the call by EQUALITY with the validated named ones, and
+nothing refuses a surplus positional that finds no Parameter. -/
+
+/-- **negation witness (strict)**: `strict=True`, `def f(a, *rest)`, Parameters `a` and `b` (not required): `f(100, 101, 102)` —
+    101 goes to `b`, 102 finds no Parameter and is silently dropped although `strict` promises TooManyArguments for an argument
+    without declared Parameter; the body runs -/
+theorem strict_surplus_positional_full_fails : ¬ strict_surplus_positional_full := by
+  intro h
+  obtain ⟨e, he⟩ := h (exRest true 10) false .args [.obj 100, .obj 101, .obj 102] [] rfl rfl (by decide)
+  have : (runValidate (exRest true 10) false .args [.obj 100, .obj 101, .obj 102] [] : Outcome) = .ok ⟨[(2, .obj 801)], [.obj 810]⟩ := by
+    rfl
+  rw [this] at he; cases he
+
+/-- the call is outside the guard of the partial theorems -/
+example : surplusGuard (exRest true 10) [.obj 100, .obj 101, .obj 102] [] = false := by decide
+
+/-- `def f(a, *rest)` with Parameters `a`, `b` (no validators), `strict=False` -/
+def exEqualSurplus : Cfg :=
+  { ps := [⟨2, true, none, none, none, [], false, by decide⟩, ⟨3, false, some (.obj 70), none, none, [], false, by decide⟩],
+    sig := { pos := [⟨2, none⟩], varArgs := true, kwOnly := [] }, strict := false, ignoreInput := false, req := .noContext }
+
+/-- the full statement of the processing-order specification: every signature, every call -/
+def gate_spec_full : Prop := ∀ (c : Cfg) (args : List PV) (kw : List (Name × PV)), wrapperContent c args kw = (gate c args kw).out
+
+/-- **negation witness (equality)**: `f(105, 105, 106)` — the first surplus positional is EQUAL to the value validated for `a`, so
+    the filter `a not in used_args` drops it (together with the first positional itself): `b` receives 106 instead of 105 -/
+theorem gate_spec_full_fails : ¬ gate_spec_full := by
+  intro h
+  have h1 := h exEqualSurplus [.obj 105, .obj 105, .obj 106] []
+  have h2 : wrapperContent exEqualSurplus [.obj 105, .obj 105, .obj 106] [] = .ok [(2, .obj 105), (3, .obj 106)] := by rfl
+  have h3 : (gate exEqualSurplus [.obj 105, .obj 105, .obj 106] []).out = .ok [(2, .obj 105), (3, .obj 105)] := by rfl
+  rw [h2, h3] at h1
+  cases h1
+example : surplusGuard exEqualSurplus [.obj 105, .obj 105, .obj 106] [] = false := by decide
+-- distinct values: inside the guard, and the specification is met
+example : surplusGuard exEqualSurplus [.obj 105, .obj 107, .obj 106] [] = true := by decide
+example : wrapperContent exEqualSurplus [.obj 105, .obj 107, .obj 106] [] = (gate exEqualSurplus [.obj 105, .obj 107, .obj 106] []).out :=
+  gate_spec_guarded _ _ _ (by decide)
+-- a method `def f(self, a, *rest)`: the receiver itself is a positional that is not in `used_args` — it is validated as the first
+-- surplus positional (`b = <the receiver>`); outside the guard
+example : surplusGuard { exEqualSurplus with sig := { pos := [⟨selfName, none⟩, ⟨2, none⟩], varArgs := true, kwOnly := [] } }
+    [.obj 90, .obj 105, .obj 106] [] = false := by decide
+example : wrapperContent { exEqualSurplus with sig := { pos := [⟨selfName, none⟩, ⟨2, none⟩], varArgs := true, kwOnly := [] } }
+    [.obj 90, .obj 105, .obj 106] [] = .ok [(selfName, .obj 90), (2, .obj 105), (3, .obj 90)] := by rfl
+
+/-- the generated test of the `zip` branch is exactly "k is the VAR_POSITIONAL parameter of the signature".  (This and
+    `ordinary_key_never_zips`, `var_positional_spelling_irrelevant` are *regression guards* for the repaired finding
+    `varPositionalNotNamedArgs`: near-tautologies about the current generated test, which break under the former text test.) -/
 theorem zip_branch_iff_var_positional (keyIsArgs wantsArgs keyIsVarPositional : Bool) :
     zipBranchTest keyIsArgs wantsArgs keyIsVarPositional = keyIsVarPositional := by
   simp [zipBranchTest]
@@ -3325,8 +3920,8 @@ theorem var_positional_spelling_irrelevant (c : Cfg) (n : Name) (a : Bool) (m : 
     (h : c.sig.pos ≠ [] ∨ (n ≠ selfName ∧ c.sig.varName ≠ selfName)) :
     runValidate { c with sig := c.sig.renameVar n } a m args kw = runValidate c a m args kw := by
   have hw : wrapperContent { c with sig := c.sig.renameVar n } args kw = wrapperContent c args kw := by
-    simp only [wrapperContent, loopOrder, List.foldlM_cons, List.foldlM_nil, runLoop, bindPartial_renameVar, loopUnused_renameVar,
-      receiver_renameVar c.sig n h]
+    simp only [wrapperContent, loopOrder, List.foldlM_cons, List.foldlM_nil, runLoop, bindPartial_renameVar, loopUnusedG_eq,
+      loopUnused_renameVar, receiver_renameVar c.sig n h]
   simp only [runValidate, hw, dispatch_renameVar _ _ _ _ _ h]
 
 /-- a function without VAR_POSITIONAL parameter never reaches the `zip` branch, whatever its parameters are called -/
@@ -3389,7 +3984,8 @@ theorem runValidatorsW_fst (w0 : σ) (name : Name) : ∀ (fs : List (StepW σ)),
 
 theorem validateW_fst (w0 : σ) (p : VParamW σ) (hp : p.WorldIndependent) (v : PV) (w : σ) :
     (p.validate v w).1 = (p.erase w0).validate v := by
-  unfold VParamW.validate VParam.validate
+  rw [validate_unfold]
+  unfold VParamW.validate VParam.validateRef
   cases v with
   | none =>
     simp only [VParamW.isRequired, VParam.isRequired, VParamW.erase]
@@ -3513,10 +4109,17 @@ theorem loopZipW_fst (w0 : σ) : ∀ (pairs : List (PV × VParamW σ)), (∀ ap 
     | ok x => simp only [bind, Except.bind]; exact ih (fun ap h => hwi ap (by simp [h])) _ _ w'
     | error e => rfl
 
-theorem zipPairs_erase (w0 : σ) (ps : List (VParamW σ)) (args : List PV) (used : List Name) (ua : List PV) :
-    zipPairs (ps.map (VParamW.erase w0)) args used ua = (zipPairsW ps args used ua).map (fun ap => (ap.1, ap.2.erase w0)) := by
-  unfold zipPairs zipPairsW
+theorem zipPairs_erase (w0 : σ) (ps : List (VParamW σ)) (args extras : List PV) (used : List Name) (ua : List PV) :
+    zipPairs (ps.map (VParamW.erase w0)) args extras used ua
+      = (zipPairsW ps args extras used ua).map (fun ap => (ap.1, ap.2.erase w0)) := by
+  unfold zipPairs zipPairsW unusedParams
   rw [List.filter_map, List.zip_map_right]
+  rfl
+
+theorem zipRefuses_erase (w0 : σ) (ps : List (VParamW σ)) (strict : Bool) (args extras : List PV) (used : List Name) (ua : List PV) :
+    zipRefuses (ps.map (VParamW.erase w0)) strict args extras used ua = zipRefusesW ps strict args extras used ua := by
+  unfold zipRefuses zipRefusesW unusedParams
+  rw [List.filter_map, List.length_map]
   rfl
 
 theorem loopUnusedW_fst (w0 : σ) (sig : Sig) : ∀ (l : List (VParamW σ)), (∀ p ∈ l, p.WorldIndependent) →
@@ -3571,9 +4174,9 @@ theorem flaskCheckW_eq (w0 : σ) (ps : List (VParamW σ)) (strict : Bool) (req :
 theorem runLoopW_fst (w0 : σ) (c : CfgW σ) (hc : c.WorldIndependent) (args : List PV) (kw : List (Name × PV)) (l : Loop)
     (st : Assoc × List Name) (w : σ) : (runLoopW c args kw l st w).1 = runLoop (c.erase w0) args kw l st := by
   cases l with
-  | kw => exact loopKwW_fst w0 c.ps hc c.strict kw st.1 st.2 w
+  | kw => simp only [runLoop, loopKwG_eq]; exact loopKwW_fst w0 c.ps hc c.strict kw st.1 st.2 w
   | pos =>
-    simp only [runLoopW, runLoop, CfgW.erase, bind, Except.bind]
+    simp only [runLoopW, runLoop, CfgW.erase, bind, Except.bind, loopPosG_eq, loopZipG_eq]
     cases hb : bindPartial c.sig args with
     | error e => rfl
     | ok b =>
@@ -3590,10 +4193,13 @@ theorem runLoopW_fst (w0 : σ) (c : CfgW σ) (hc : c.WorldIndependent) (args : L
         simp only
         split
         · rfl
-        · rw [zipPairs_erase]
-          exact loopZipW_fst w0 _ (fun ap hap => hc _ (List.mem_filter.mp (List.of_mem_zip hap).2).1) r2 u2 w'
+        · rw [zipRefuses_erase]
+          split
+          · rfl
+          · rw [zipPairs_erase]
+            exact loopZipW_fst w0 _ (fun ap hap => hc _ (List.mem_filter.mp (List.of_mem_zip hap).2).1) r2 u2 w'
   | unused =>
-    simp only [runLoopW, runLoop, CfgW.erase, bind, Except.bind]
+    simp only [runLoopW, runLoop, CfgW.erase, bind, Except.bind, loopUnusedG_eq]
     have h3 := loopUnusedW_fst w0 c.sig (c.ps.filter (fun p => !st.2.contains p.name))
       (fun p hp => hc p (List.mem_filter.mp hp).1) st.1 w
     rw [List.filter_map]
@@ -3662,7 +4268,11 @@ theorem runValidateW_fst (w0 : σ) (c : CfgW σ) (hc : c.WorldIndependent) (body
     call's own arguments only: it is the same in every world — after every history of earlier calls (of this or any other
     decorated function, sharing Parameter objects or not), and whatever the validators of this call do while it runs,
     calling the same decorated function again included (`w`, `w'` arbitrary; the effects of the steps and of the body
-    arbitrary).  Hypothesis: what a step *returns* does not depend on the world. -/
+    arbitrary).  Hypothesis: what a step *returns* does not depend on the world.
+    Status: a *model-structure lemma* — `Model/ValidateWorld.lean` passes the bookkeeping of a call as arguments of the loop
+    functions and never reads the world, so the statement follows by construction; what ties that structure to the code are the
+    source-shape facts `bookkeepingIsPerCall` / `parameterValidateIsStateless` (`reentrancy_source_shape`) and the re-entrant
+    scenarios of the correspondence check. -/
 theorem call_outcome_independent_of_other_calls (c : CfgW σ) (hc : c.WorldIndependent) (body body' : Binding → σ → σ)
     (a : Bool) (m : Mode) (args : List PV) (kw : List (Name × PV)) (w w' : σ) :
     (runValidateW c body a m args kw w).1 = (runValidateW c body' a m args kw w').1 := by
@@ -3679,20 +4289,455 @@ theorem call_outcome_independent_of_step_effects (c c' : CfgW σ) (hc : c.WorldI
 /-- **C12 (gate, re-entrant).** The gate holds for the outer call whatever the inner calls do: for a function without
     VAR_POSITIONAL parameter the dict handed over (or the exception raised) is `gate` of the call's own arguments. -/
 theorem gate_holds_for_outer_call (w0 : σ) (c : CfgW σ) (hc : c.WorldIndependent) (args : List PV) (kw : List (Name × PV))
-    (hva : c.sig.varArgs = false) (w : σ) :
+    (hg : surplusGuard (c.erase w0) args kw = true) (w : σ) :
     (wrapperContentW c args kw w).1 = (gate (c.erase w0) args kw).out := by
   rw [wrapperContentW_fst w0 c hc]
-  exact gate_spec (c.erase w0) args kw hva
+  exact gate_spec_guarded (c.erase w0) args kw hg
 
-/-- and if any item of the outer call fails, the outer body does not run — in no world -/
+/-- a call that raises leaves the world exactly as `_wrapper_content` left it: the effect of the body is absent (model-structure
+    lemma: `body` is applied only on the `.ok` path of `runValidateW`) -/
+theorem runValidateW_error_world (c : CfgW σ) (body : Binding → σ → σ) (a : Bool) (m : Mode) (args : List PV) (kw : List (Name × PV))
+    (w : σ) (e : VExc) (h : (runValidateW c body a m args kw w).1 = .error e) :
+    (runValidateW c body a m args kw w).2 = (wrapperContentW c args kw w).2 := by
+  unfold runValidateW at h ⊢
+  rcases hw : wrapperContentW c args kw w with ⟨r, w'⟩
+  rw [hw] at h
+  cases r with
+  | error e' => rfl
+  | ok res =>
+    simp only at h ⊢
+    cases hd : dispatch c.sig a m res with
+    | error e' => rfl
+    | ok b => rw [hd] at h; cases h
+
+/-- and if any item of the outer call fails, the outer body does not run — in no world: the call raises **and the world after
+    it is the world `_wrapper_content` left** (validators may have acted — inner calls included —, the body has not) -/
 theorem reject_blocks_outer_body (w0 : σ) (c : CfgW σ) (hc : c.WorldIndependent) (body : Binding → σ → σ) (a : Bool) (m : Mode)
-    (args : List PV) (kw : List (Name × PV)) (hva : c.sig.varArgs = false) (it : Item) (e : VExc)
+    (args : List PV) (kw : List (Name × PV)) (hg : surplusGuard (c.erase w0) args kw = true) (it : Item) (e : VExc)
     (hit : it ∈ gateItems (c.erase w0) args kw) (hrej : itemOut (c.erase w0) it = .error e) (w : σ) :
-    ∃ e', (runValidateW c body a m args kw w).1 = .error e' := by
-  rw [runValidateW_fst w0 c hc]
-  exact reject_blocks_body (c.erase w0) a m args kw hva it e hit hrej
+    (∃ e', (runValidateW c body a m args kw w).1 = .error e') ∧
+    (runValidateW c body a m args kw w).2 = (wrapperContentW c args kw w).2 := by
+  have h1 : ∃ e', (runValidateW c body a m args kw w).1 = .error e' := by
+    rw [runValidateW_fst w0 c hc]
+    exact reject_blocks_body_guarded (c.erase w0) a m args kw hg it e hit hrej
+  obtain ⟨e', he'⟩ := h1
+  exact ⟨⟨e', he'⟩, runValidateW_error_world c body a m args kw w e' he'⟩
 
 end World
+
+/-! ## The journal: which validators run, with what, in which order
+
+The world is the journal of validator invocations: every validator, before it answers, appends (parameter name, its index, the
+value it receives).  `journal_spec` below: after `_wrapper_content` the journal is `gateJournal` of the specification — validators
+run in processing order of the items, each receives its predecessor's output, and **no validator of a later item runs after the
+first failing item**. -/
+
+/-- a validator that journals its invocation before it answers -/
+def journalStep (name : Name) (j : Nat) (f : Step) : StepW (List JEntry) := fun v w => (f v, w ++ [(name, j, v)])
+
+/-- a Parameter whose validators journal (its conversion is silent, as in the harness) -/
+def VParam.journalW (p : VParam) : VParamW (List JEntry) :=
+  { name := p.name, requiredArg := p.requiredArg, dflt := p.dflt, ext := p.ext,
+    conv := p.conv.map (fun c v w => (c v, w)),
+    validators := p.validators.zipIdx.map (fun fj => journalStep p.name fj.2 fj.1),
+    flaskJson := p.flaskJson, nameNonEmpty := p.nameNonEmpty }
+
+def Cfg.journalW (c : Cfg) : CfgW (List JEntry) := ⟨c.ps.map VParam.journalW, c.sig, c.strict, c.ignoreInput, c.req⟩
+
+theorem runValidatorsW_journal (name : Name) : ∀ (fs : List Step) (j : Nat) (v : PV) (w : List JEntry),
+    runValidatorsW name ((fs.zipIdx j).map (fun fj => journalStep name fj.2 fj.1)) j v w
+      = (runValidators name fs j v, w ++ validatorTrace name fs j v) := by
+  intro fs
+  induction fs with
+  | nil => intro j v w; simp [runValidatorsW, runValidators, validatorTrace]
+  | cons f fs ih =>
+    intro j v w
+    simp only [List.zipIdx_cons, List.map_cons, runValidatorsW, journalStep, runValidators, validatorTrace]
+    cases hf : f v with
+    | ok x => simp only; rw [ih (j + 1) x]; simp [List.append_assoc]
+    | error r => cases r <;> simp
+
+/-- a journalling Parameter returns what the Parameter returns and appends exactly `specJournal` -/
+theorem validateW_journal (p : VParam) (v : PV) (w : List JEntry) :
+    p.journalW.validate v w = (p.validate v, w ++ specJournal p v) := by
+  rw [validate_unfold]
+  unfold VParamW.validate VParam.validateRef specJournal
+  cases v with
+  | none =>
+    simp only [VParamW.isRequired, VParam.isRequired, VParam.journalW, ↓reduceIte, List.append_nil]
+    by_cases h : isRequiredRule p.dflt.isSome p.requiredArg = true <;> simp [h]
+  | obj i =>
+    simp only [reduceCtorEq, ↓reduceIte, VParam.journalW]
+    cases hc : p.conv with
+    | none =>
+      simp only [Option.map_none]
+      have := runValidatorsW_journal p.name p.validators 0 (.obj i) w
+      simpa using this
+    | some c =>
+      simp only [Option.map_some]
+      cases hcv : c (.obj i) with
+      | ok x =>
+        simp only
+        have := runValidatorsW_journal p.name p.validators 0 x w
+        simpa using this
+      | error r => cases r <;> simp
+
+theorem findPW_journal : ∀ (ps : List VParam) (k : Name), findPW (ps.map VParam.journalW) k = (findP ps k).map VParam.journalW := by
+  intro ps
+  induction ps with
+  | nil => intro k; rfl
+  | cons p r ih =>
+    intro k
+    simp only [List.map_cons, findP, findPW, ih k]
+    cases findP r k with
+    | some q => rfl
+    | none =>
+      by_cases h : (p.name == k) = true
+      · have : (p.journalW.name == k) = true := h
+        simp [h, this]
+      · have h' : (p.name == k) = false := by simpa using h
+        have : (p.journalW.name == k) = false := h'
+        simp [h', this]
+
+/-- what remains to be journalled after a loop: the journal of the later items if the loop succeeded, nothing if it raised -/
+def journalAfter {α : Type} (c : Cfg) (r : Except VExc α) (rest : List Item) : List JEntry :=
+  match r with
+  | .ok _ => gateJournal c rest
+  | .error _ => []
+
+theorem loopKwW_journal (c : Cfg) : ∀ (kw : List (Name × PV)) (rest : List Item) (res : Assoc) (used : List Name) (w : List JEntry),
+    (loopKwW (c.ps.map VParam.journalW) c.strict kw res used w).1 = loopKw c.ps c.strict kw res used ∧
+    (loopKwW (c.ps.map VParam.journalW) c.strict kw res used w).2 ++ journalAfter c (loopKw c.ps c.strict kw res used) rest
+      = w ++ gateJournal c (kw.map (fun kv => Item.kw kv.1 kv.2) ++ rest) := by
+  intro kw
+  induction kw with
+  | nil => intro rest res used w; simp [loopKwW, loopKw, journalAfter]
+  | cons kv tl ih =>
+    intro rest res used w
+    obtain ⟨k, v⟩ := kv
+    simp only [loopKwW, loopKw, findPW_journal, List.map_cons, List.cons_append, gateJournal, itemOut, itemJournal, specFindP_eq,
+      kwStrictTest_eq, ← validate_is_chain_fold]
+    cases hf : findP c.ps k with
+    | none =>
+      simp only [Option.map_none]
+      by_cases hs : c.strict = true
+      · simp [hs, journalAfter]
+      · have hs' : c.strict = false := by simpa using hs
+        simp only [hs', Bool.false_eq_true, ↓reduceIte, List.nil_append]
+        have := ih rest (res.set k v) used w
+        simpa only [hs'] using this
+    | some p =>
+      simp only [Option.map_some, validateW_journal]
+      have hpn : p.journalW.name = p.name := rfl
+      cases hv : p.validate v with
+      | error e => simp [Except.map, bind, Except.bind, journalAfter]
+      | ok x =>
+        simp only [Except.map, bind, Except.bind, hpn]
+        obtain ⟨h1, h2⟩ := ih rest (res.set k x) (used ++ [p.name]) (w ++ specJournal p v)
+        exact ⟨h1, by rw [h2, List.append_assoc]⟩
+
+theorem loopPosW_journal (c : Cfg) (recv : Option Name) (hrecv : recv = c.sig.receiver) :
+    ∀ (bd : List (Name × PV)) (rest : List Item) (res : Assoc) (used : List Name) (ua : List PV) (w : List JEntry),
+    (loopPosW (c.ps.map VParam.journalW) c.strict recv bd res used ua w).1 = loopPos c.ps c.strict recv bd res used ua ∧
+    (loopPosW (c.ps.map VParam.journalW) c.strict recv bd res used ua w).2 ++ journalAfter c (loopPos c.ps c.strict recv bd res used ua) rest
+      = w ++ gateJournal c (bd.map (fun kv => Item.pos kv.1 kv.2) ++ rest) := by
+  intro bd
+  induction bd with
+  | nil => intro rest res used ua w; simp [loopPosW, loopPos, journalAfter]
+  | cons kv tl ih =>
+    intro rest res used ua w
+    obtain ⟨k, v⟩ := kv
+    simp only [loopPosW, loopPos, findPW_journal, List.map_cons, List.cons_append, gateJournal, itemOut, itemJournal, specFindP_eq,
+      posStrictTest_eq, ← validate_is_chain_fold, hrecv, receiver_eq_spec]
+    cases hf : findP c.ps k with
+    | none =>
+      simp only [Option.map_none]
+      by_cases hs : (c.strict && some k != specReceiver c.sig) = true
+      · simp [hs, journalAfter]
+      · simp only [hs, Bool.false_eq_true, ↓reduceIte, List.nil_append]
+        have := ih rest (res.set k v) used (writeRecord posUndeclaredWrite ua v) w
+        simpa only [hrecv, receiver_eq_spec] using this
+    | some p =>
+      simp only [Option.map_some, validateW_journal]
+      have hpn : p.journalW.name = p.name := rfl
+      cases hv : p.validate v with
+      | error e => simp [Except.map, bind, Except.bind, journalAfter]
+      | ok x =>
+        simp only [Except.map, bind, Except.bind, hpn]
+        obtain ⟨h1, h2⟩ := ih rest (res.set k x) (used ++ [p.name]) (writeRecord posDeclaredWrite ua v) (w ++ specJournal p v)
+        simp only [hrecv, receiver_eq_spec] at h1 h2
+        exact ⟨h1, by rw [h2, List.append_assoc]⟩
+
+theorem loopZipW_journal (c : Cfg) : ∀ (pairs : List (PV × VParam)) (rest : List Item) (res : Assoc) (used : List Name) (w : List JEntry),
+    (loopZipW (pairs.map (fun ap => (ap.1, ap.2.journalW))) res used w).1 = loopZip pairs res used ∧
+    (loopZipW (pairs.map (fun ap => (ap.1, ap.2.journalW))) res used w).2 ++ journalAfter c (loopZip pairs res used) rest
+      = w ++ gateJournal c (pairs.map (fun ap => Item.zip ap.2 ap.1) ++ rest) := by
+  intro pairs
+  induction pairs with
+  | nil => intro rest res used w; simp [loopZipW, loopZip, journalAfter]
+  | cons ap tl ih =>
+    intro rest res used w
+    obtain ⟨a, p⟩ := ap
+    simp only [loopZipW, loopZip, List.map_cons, List.cons_append, gateJournal, itemOut, itemJournal, ← validate_is_chain_fold,
+      validateW_journal]
+    have hpn : p.journalW.name = p.name := rfl
+    cases hv : p.validate a with
+    | error e => simp [Except.map, bind, Except.bind, journalAfter]
+    | ok x =>
+      simp only [Except.map, bind, Except.bind, hpn]
+      obtain ⟨h1, h2⟩ := ih rest (res.set p.name x) (used ++ [p.name]) (w ++ specJournal p a)
+      exact ⟨h1, by rw [h2, List.append_assoc]⟩
+
+theorem loopUnusedW_journal (c : Cfg) : ∀ (l : List VParam) (res : Assoc) (w : List JEntry),
+    (loopUnusedW c.sig (l.map VParam.journalW) res w).1 = loopUnused c.sig l res ∧
+    (loopUnusedW c.sig (l.map VParam.journalW) res w).2 = w ++ gateJournal c (l.map Item.absent) := by
+  intro l
+  induction l with
+  | nil => intro res w; simp [loopUnusedW, loopUnused, gateJournal]
+  | cons p tl ih =>
+    intro res w
+    have hpn : p.journalW.name = p.name := rfl
+    have hreq : p.journalW.isRequired = p.isRequired := rfl
+    have hext : p.journalW.ext = p.ext := rfl
+    have hd : p.journalW.dflt = p.dflt := rfl
+    simp only [loopUnusedW, loopUnused, List.map_cons, gateJournal, itemOut, itemJournal, specDefault_eq, ← validate_is_chain_fold,
+      ← isRequired_eq, hpn, hreq, hext, hd]
+    cases he : p.ext with
+    | some v =>
+      simp only [validateW_journal]
+      cases hv : p.validate v with
+      | error e => simp [Except.map, bind, Except.bind]
+      | ok x =>
+        simp only [Except.map, bind, Except.bind]
+        obtain ⟨h1, h2⟩ := ih (res.set p.name x) (w ++ specJournal p v)
+        exact ⟨h1, by rw [h2, List.append_assoc]⟩
+    | none =>
+      simp only
+      by_cases hr : p.isRequired = true
+      · simp [hr]
+      · simp only [hr, Bool.false_eq_true, ↓reduceIte]
+        cases hdd : p.dflt with
+        | some d => simp only [List.nil_append]; exact ih _ w
+        | none =>
+          simp only
+          cases hsd : c.sig.default? p.name with
+          | some d => simp only [List.nil_append]; exact ih _ w
+          | none => simp
+
+/-- the world after `_wrapper_content`, loop by loop (the loops in the generated source order) -/
+theorem wrapperContentW_snd {σ : Type} (c : CfgW σ) (args : List PV) (kw : List (Name × PV)) (w : σ) :
+    (wrapperContentW c args kw w).2 =
+      if c.ignoreInput then (loopUnusedW c.sig (c.ps.filter (fun p => !([] : List Name).contains p.name)) [] w).2
+      else
+        match loopKwW c.ps c.strict kw [] [] w with
+        | (.error _, w1) => w1
+        | (.ok st1, w1) =>
+          match bindPartial c.sig args with
+          | .error _ => w1
+          | .ok b =>
+            match loopPosW c.ps c.strict c.sig.receiver b.named st1.1 st1.2 [] w1 with
+            | (.error _, w2) => w2
+            | (.ok (r2, u2, ua), w2) =>
+              if b.extras.isEmpty then (loopUnusedW c.sig (c.ps.filter (fun p => !u2.contains p.name)) r2 w2).2
+              else if zipRefusesW c.ps c.strict args b.extras u2 ua then w2
+              else
+                match loopZipW (zipPairsW c.ps args b.extras u2 ua) r2 u2 w2 with
+                | (.error _, w3) => w3
+                | (.ok st3, w3) => (loopUnusedW c.sig (c.ps.filter (fun p => !st3.2.contains p.name)) st3.1 w3).2 := by
+  unfold wrapperContentW
+  simp only [loopOrder, runLoopsW, underIgnoreInput, runLoopW]
+  cases hi : c.ignoreInput
+  · simp only [Bool.and_false, Bool.false_eq_true, ↓reduceIte, Bool.and_true]
+    rcases h1 : loopKwW c.ps c.strict kw [] [] w with ⟨r1, w1⟩
+    cases r1 with
+    | error e => rfl
+    | ok st1 =>
+      simp only
+      cases hb : bindPartial c.sig args with
+      | error e => rfl
+      | ok b =>
+        simp only
+        rcases h2 : loopPosW c.ps c.strict c.sig.receiver b.named st1.1 st1.2 [] w1 with ⟨r2, w2⟩
+        cases r2 with
+        | error e => rfl
+        | ok st2 =>
+          obtain ⟨r2, u2, ua⟩ := st2
+          simp only
+          cases hex : b.extras.isEmpty
+          · simp only [Bool.false_eq_true, ↓reduceIte]
+            cases hz : zipRefusesW c.ps c.strict args b.extras u2 ua
+            · simp only [Bool.false_eq_true, ↓reduceIte]
+              rcases h3 : loopZipW (zipPairsW c.ps args b.extras u2 ua) r2 u2 w2 with ⟨r3, w3⟩
+              cases r3 with
+              | error e => rfl
+              | ok st3 =>
+                simp only
+                rcases loopUnusedW c.sig (c.ps.filter (fun p => !st3.2.contains p.name)) st3.1 w3 with ⟨r4, w4⟩
+                cases r4 <;> rfl
+            · rfl
+          · simp only [↓reduceIte]
+            rcases loopUnusedW c.sig (c.ps.filter (fun p => !u2.contains p.name)) r2 w2 with ⟨r4, w4⟩
+            cases r4 <;> rfl
+  · simp only [Bool.and_true, ↓reduceIte, Bool.and_false, Bool.false_eq_true]
+    rcases loopUnusedW c.sig (c.ps.filter (fun p => !([] : List Name).contains p.name)) [] w with ⟨r4, w4⟩
+    cases r4 <;> rfl
+
+theorem filter_journalW (ps : List VParam) (f : Name → Bool) :
+    (ps.map VParam.journalW).filter (fun p => f p.name) = (ps.filter (fun p => f p.name)).map VParam.journalW := by
+  rw [List.filter_map]; rfl
+
+theorem zipPairsW_journal (ps : List VParam) (args extras : List PV) (used : List Name) (ua : List PV) :
+    zipPairsW (ps.map VParam.journalW) args extras used ua
+      = (zipPairs ps args extras used ua).map (fun ap => (ap.1, ap.2.journalW)) := by
+  unfold zipPairsW zipPairs unusedParams
+  rw [filter_journalW ps (fun n => !used.contains n), List.zip_map_right]
+  rfl
+
+theorem zipRefusesW_journal (ps : List VParam) (strict : Bool) (args extras : List PV) (used : List Name) (ua : List PV) :
+    zipRefusesW (ps.map VParam.journalW) strict args extras used ua = zipRefuses ps strict args extras used ua := by
+  unfold zipRefusesW zipRefuses unusedParams
+  rw [filter_journalW ps (fun n => !used.contains n), List.length_map]
+
+/-- **C12 (journal: which validators run, in which order, and none after the first failing item).** With journalling validators
+    — every validator appends (parameter, its index, the value it receives) before it answers — the journal after
+    `_wrapper_content` is the journal the specification prescribes (`gateJournal`): the validators of the items in processing order,
+    each chain in order with every validator fed its predecessor's output, up to and including the first failing item and **no
+    validator of a later item**.  Any signature, under the guard `surplusGuard`. -/
+theorem journal_spec (c : Cfg) (args : List PV) (kw : List (Name × PV)) (hg : surplusGuard c args kw = true) (w : List JEntry) :
+    (wrapperContentW c.journalW args kw w).2 = w ++ (gate c args kw).journal := by
+  rw [wrapperContentW_snd]
+  simp only [Cfg.journalW]
+  unfold gate gateItems
+  simp only
+  by_cases hi : c.ignoreInput = true
+  · simp only [hi, ↓reduceIte]
+    rw [filter_journalW c.ps (fun n => !([] : List Name).contains n), (loopUnusedW_journal c _ [] w).2,
+      List.filter_eq_self.mpr (by simp)]
+  · simp only [hi, Bool.false_eq_true, ↓reduceIte, List.append_assoc]
+    obtain ⟨k1, k2⟩ := loopKwW_journal c kw
+      ((if (decide (args.length > c.sig.pos.length) && !c.sig.varArgs) = true then [Item.surplusPos] else []) ++
+        ((c.sig.posNames.zip args).map (fun kv => Item.pos kv.1 kv.2) ++
+          ((if (c.strict && decide ((surplusArgs c.sig args).length > (unsupplied c args kw).length)) = true then [Item.surplusLeft] else []) ++
+            ((zipped c args kw).map (fun ap => Item.zip ap.2 ap.1) ++
+              ((unsupplied c args kw).filter (fun p => !((zipped c args kw).map (·.2.name)).contains p.name)).map Item.absent)))) [] [] w
+    rw [← k2]
+    rcases h1w : loopKwW (c.ps.map VParam.journalW) c.strict kw [] [] w with ⟨rK, wK⟩
+    rw [h1w] at k1
+    simp only at k1 ⊢
+    cases h1 : loopKw c.ps c.strict kw [] [] with
+    | error e => rw [h1] at k1; subst k1; simp [journalAfter]
+    | ok st1 =>
+      obtain ⟨r1, u1⟩ := st1
+      rw [h1] at k1; subst k1
+      simp only [journalAfter]
+      have hunused : ∀ (r2 : Assoc) (u2 : List Name) (ua : List PV),
+          loopPos c.ps c.strict c.sig.receiver (c.sig.posNames.zip args) r1 u1 [] = .ok (r2, u2, ua) →
+          c.ps.filter (fun p => !u2.contains p.name) = unsupplied c args kw := by
+        intro r2 u2 ua h2
+        unfold unsupplied
+        apply List.filter_congr
+        intro p hp
+        have hsome := findP_isSome_of_mem c.ps p hp
+        have hu1 := loopKw_used c.ps c.strict kw [] r1 [] u1 h1 p.name
+        have hu2 := loopPos_used c.ps c.strict _ _ r1 r2 u1 u2 [] ua h2 p.name
+        have : u2.contains p.name = supplied c.sig args kw p.name := by
+          rw [Bool.eq_iff_iff]
+          simp only [List.contains_iff_mem, hu2, hu1, supplied, zip_any_key, hsome, and_true, List.not_mem_nil, false_or,
+            Bool.or_eq_true]
+        rw [this]
+      unfold bindPartial
+      by_cases hlen : args.length ≤ c.sig.pos.length
+      · have hlen' : ¬ args.length > c.sig.pos.length := by omega
+        have hsur : surplusArgs c.sig args = [] := by
+          unfold surplusArgs; split
+          · exact List.drop_eq_nil_of_le hlen
+          · rfl
+        have hz : zipped c args kw = [] := by simp [zipped, hsur]
+        have hft : ∀ (l : List VParam), l.filter (fun _ => true) = l := fun l => List.filter_eq_self.mpr (by simp)
+        simp only [hlen, hlen', ↓reduceIte, List.nil_append, List.isEmpty_nil, decide_false, Bool.false_and, Bool.false_eq_true,
+          hsur, List.length_nil, hz, List.map_nil, List.contains_nil, Bool.not_false, hft, Nat.not_lt_zero,
+          Bool.and_false, gt_iff_lt]
+        obtain ⟨p1, p2⟩ := loopPosW_journal c c.sig.receiver rfl (c.sig.posNames.zip args)
+          ((unsupplied c args kw).map Item.absent) r1 u1 [] wK
+        rw [← p2]
+        rcases h2w : loopPosW (c.ps.map VParam.journalW) c.strict c.sig.receiver (c.sig.posNames.zip args) r1 u1 [] wK with ⟨rP, wP⟩
+        rw [h2w] at p1
+        simp only at p1 ⊢
+        cases h2 : loopPos c.ps c.strict c.sig.receiver (c.sig.posNames.zip args) r1 u1 [] with
+        | error e => rw [h2] at p1; subst p1; simp [journalAfter]
+        | ok st2 =>
+          obtain ⟨r2, u2, ua⟩ := st2
+          rw [h2] at p1; subst p1
+          simp only [journalAfter]
+          rw [filter_journalW c.ps (fun n => !u2.contains n), (loopUnusedW_journal c _ r2 wP).2, hunused r2 u2 ua h2]
+      · have hlen' : args.length > c.sig.pos.length := by omega
+        cases hva : c.sig.varArgs with
+        | false => simp [hlen, hlen', hva, gateJournal, itemOut, itemJournal]
+        | true =>
+          have hg' := hg
+          simp only [surplusGuard, hva, Bool.not_true, Bool.false_or, hlen, decide_false, Bool.and_eq_true, beq_iff_eq] at hg'
+          obtain ⟨hsrc, hstrict⟩ := hg'
+          have hzb : zipBranchTest (c.sig.varName == argsName) c.sig.wantsArgs true = true := by simp [zipBranchTest]
+          have hsur : surplusArgs c.sig args = args.drop c.sig.pos.length := by simp [surplusArgs, hva]
+          have hne : (args.drop c.sig.pos.length).isEmpty = false := by
+            cases hd : args.drop c.sig.pos.length with
+            | nil => have := List.drop_eq_nil_iff.mp hd; omega
+            | cons x xs => rfl
+          simp only [hlen, hlen', ↓reduceIte, hva, hzb, decide_true, Bool.not_true, Bool.and_false, Bool.false_eq_true,
+            List.nil_append, hne]
+          obtain ⟨p1, p2⟩ := loopPosW_journal c c.sig.receiver rfl (c.sig.posNames.zip args)
+            ((if (c.strict && decide ((surplusArgs c.sig args).length > (unsupplied c args kw).length)) = true then [Item.surplusLeft] else []) ++
+              ((zipped c args kw).map (fun ap => Item.zip ap.2 ap.1) ++
+                ((unsupplied c args kw).filter (fun p => !((zipped c args kw).map (·.2.name)).contains p.name)).map Item.absent)) r1 u1 [] wK
+          rw [← p2]
+          rcases h2w : loopPosW (c.ps.map VParam.journalW) c.strict c.sig.receiver (c.sig.posNames.zip args) r1 u1 [] wK with ⟨rP, wP⟩
+          rw [h2w] at p1
+          simp only at p1 ⊢
+          cases h2 : loopPos c.ps c.strict c.sig.receiver (c.sig.posNames.zip args) r1 u1 [] with
+          | error e => rw [h2] at p1; subst p1; simp [journalAfter]
+          | ok st2 =>
+            obtain ⟨r2, u2, ua⟩ := st2
+            rw [h2] at p1; subst p1
+            simp only [journalAfter]
+            have hua : ua = recorded c.ps (c.sig.posNames.zip args) := by
+              have := loopPos_ua c.ps c.strict _ _ r1 r2 u1 u2 [] ua h2
+              simpa using this
+            have hun := hunused r2 u2 ua h2
+            have hpairs : zipPairs c.ps args (args.drop c.sig.pos.length) u2 ua = zipped c args kw := by
+              unfold zipPairs zipped unusedParams
+              rw [hun, hua, hsrc, hsur]
+            have hrefuse : zipRefuses c.ps c.strict args (args.drop c.sig.pos.length) u2 ua
+                = (c.strict && decide ((surplusArgs c.sig args).length > (unsupplied c args kw).length)) := by
+              unfold zipRefuses unusedParams
+              rw [hun, hua, hsrc, hsur, hstrict]
+            simp only [zipRefusesW_journal, zipPairsW_journal, hrefuse, hpairs]
+            by_cases hleft : (c.strict && decide ((surplusArgs c.sig args).length > (unsupplied c args kw).length)) = true
+            · simp [hleft, gateJournal, itemOut, itemJournal]
+            · simp only [hleft, Bool.false_eq_true, ↓reduceIte, List.nil_append]
+              obtain ⟨z1, z2⟩ := loopZipW_journal c (zipped c args kw)
+                (((unsupplied c args kw).filter (fun p => !((zipped c args kw).map (·.2.name)).contains p.name)).map Item.absent) r2 u2 wP
+              rw [← z2]
+              rcases h3w : loopZipW ((zipped c args kw).map (fun ap => (ap.1, ap.2.journalW))) r2 u2 wP with ⟨rZ, wZ⟩
+              rw [h3w] at z1
+              simp only [h3w] at z1 ⊢
+              cases h3 : loopZip (zipped c args kw) r2 u2 with
+              | error e => rw [h3] at z1; subst z1; simp [journalAfter]
+              | ok st3 =>
+                obtain ⟨r3, u3⟩ := st3
+                rw [h3] at z1; subst z1
+                simp only [journalAfter]
+                have hu3 := loopZip_used _ _ _ _ _ h3
+                have hf : c.ps.filter (fun p => !u3.contains p.name)
+                    = (unsupplied c args kw).filter (fun p => !((zipped c args kw).map (·.2.name)).contains p.name) := by
+                  rw [← hun, List.filter_filter, hu3]
+                  apply List.filter_congr
+                  intro p _
+                  simp only [List.contains_append, Bool.not_or, Bool.and_comm]
+                rw [filter_journalW c.ps (fun n => !u3.contains n), (loopUnusedW_journal c _ r3 wZ).2, hf]
+
+-- `f(100, 101)` on `exGate [801]` (the second validator of `a` rejects): the journal lists the two invocations for `a` and none for `b`
+example : (wrapperContentW (exGate [801]).journalW [.obj 100, .obj 101] [] []).2 = [(2, 0, .obj 100), (2, 1, .obj 801)] := by
+  rw [journal_spec _ _ _ (by decide)]; rfl
 
 /-! ### a concrete re-entrant call -/
 
